@@ -1,10 +1,19 @@
-(** Lemmas about the trigger model (Trigger/Trigger.v) for property C17. *)
+(** Lemmas about the trigger model (Trigger/Trigger.v) for property C17:
+      A. the effect of a dispatch ([eff_entry]): exactly the effects of the entries whose actions all
+         succeeded, nothing for the others;
+      B. the invariant [Inv] (every id in one place, ids below the counter, FIFO bookkeeping, gas limits
+         and signers of every stored trigger) and [TimeOk], through every transition, from any
+         well-formed genesis state ([wf_gen]);
+      D. nested creations;
+      E. ids are never reused ([GoneR], [Gone]);
+      C. the history theorems; F. exactness of the detection in every block of a history. *)
 From Coq Require Import ZArith NArith List Bool Lia.
-From PV Require Import Trigger.Trigger.
+From PV Require Import Trigger.Trigger Proofs.TriggerDetectProofs Proofs.TriggerLiveProofs.
 Import ListNotations.
 Open Scope N_scope.
 
-(** * Counting the entries with a given id *)
+(* ------------------------------------------------------------------------------------------------ *)
+(** * 1. Counting the entries with a given id *)
 Definition cnt (l : list entry) (i : N) : nat := length (filter (fun e => eid e =? i) l).
 
 Lemma cnt_nil i : cnt [] i = 0%nat.
@@ -20,15 +29,6 @@ Lemma cnt_filter_le p l i : (cnt (filter p l) i <= cnt l i)%nat.
 Proof.
   induction l as [|x l IH]; [apply le_n|].
   cbn [filter]. destruct (p x); rewrite ?cnt_cons; lia.
-Qed.
-
-Lemma cnt_filter_mono (p q : entry -> bool) l i :
-  (forall x, p x = true -> q x = true) -> (cnt (filter p l) i <= cnt (filter q l) i)%nat.
-Proof.
-  intros Hpq. induction l as [|x l IH]; [apply le_n|].
-  cbn [filter]. destruct (p x) eqn:Hp.
-  - rewrite (Hpq x Hp). rewrite !cnt_cons. lia.
-  - destruct (q x); rewrite ?cnt_cons; lia.
 Qed.
 
 Lemma cnt_remove_id j l i : cnt (remove_id j l) i = if i =? j then 0%nat else cnt l i.
@@ -56,12 +56,20 @@ Proof.
       * assert (0 < cnt l i)%nat by (apply IH; exists e; auto). lia.
 Qed.
 
-Lemma mem_In x l : mem x l = true <-> In x l.
+Lemma cnt_zero_not_In l i : cnt l i = 0%nat -> forall e, In e l -> eid e <> i.
 Proof.
-  unfold mem. rewrite existsb_exists. split.
-  - intros [y [Hy He]]. apply N.eqb_eq in He. subst y. assumption.
-  - intros H. exists x. split; [assumption|apply N.eqb_refl].
+  intros Hz e He Hi. assert (Hp : (0 < cnt l i)%nat) by (apply cnt_pos_In; exists e; auto). lia.
 Qed.
+
+Lemma cnt_incl_zero l1 l2 i : (forall e, In e l1 -> In e l2) -> cnt l2 i = 0%nat -> cnt l1 i = 0%nat.
+Proof.
+  intros Hs Hz. destruct (Nat.eq_dec (cnt l1 i) 0) as [|Hn]; [assumption|].
+  assert (Hp : (0 < cnt l1 i)%nat) by lia. apply cnt_pos_In in Hp. destruct Hp as [e [He1 He2]].
+  exfalso. exact (cnt_zero_not_In l2 i Hz e (Hs e He1) He2).
+Qed.
+
+Lemma mem_In x l : mem x l = true <-> In x l.
+Proof. apply mem_spec. Qed.
 
 Lemma cnt_le1_NoDup l : (forall i, (cnt l i <= 1)%nat) -> NoDup (map eid l).
 Proof.
@@ -72,251 +80,265 @@ Proof.
   - apply IH. intros i. specialize (H i). rewrite cnt_cons in H. lia.
 Qed.
 
-(** * Sorting keeps the elements *)
-Lemma cnt_insert k x l i : cnt (insert_by k x l) i = cnt (x :: l) i.
+Lemma NoDup_cnt_le1 l : NoDup (map eid l) -> forall i, (cnt l i <= 1)%nat.
 Proof.
-  induction l as [|y l IH]; [reflexivity|].
-  cbn [insert_by]. destruct (key_le (k x) (k y)); [reflexivity|].
-  rewrite cnt_cons, IH, !cnt_cons. lia.
+  induction l as [|x l IH]; cbn [map]; intros H i.
+  - rewrite cnt_nil. lia.
+  - inversion H as [|u v Hn Hd]; subst. rewrite cnt_cons. specialize (IH Hd i).
+    destruct (eid x =? i) eqn:Hx; [|lia].
+    apply N.eqb_eq in Hx. subst i.
+    destruct (Nat.eq_dec (cnt l (eid x)) 0) as [Hz|Hz]; [lia|].
+    exfalso. apply Hn. assert (Hp : (0 < cnt l (eid x))%nat) by lia.
+    apply cnt_pos_In in Hp. destruct Hp as [e [He1 He2]]. rewrite <- He2. apply in_map. exact He1.
 Qed.
 
-Lemma cnt_sort k l i : cnt (sort_by k l) i = cnt l i.
-Proof.
-  unfold sort_by. induction l as [|x l IH]; [reflexivity|].
-  cbn [fold_right]. rewrite cnt_insert, !cnt_cons, IH. reflexivity.
-Qed.
+Lemma cnt_firstn_skipn k l i : cnt l i = (cnt (firstn k l) i + cnt (skipn k l) i)%nat.
+Proof. rewrite <- cnt_app, firstn_skipn. reflexivity. Qed.
 
-Lemma In_insert k x l y : In y (insert_by k x l) <-> y = x \/ In y l.
-Proof.
-  induction l as [|z l IH]; cbn [insert_by].
-  - cbn. intuition.
-  - destruct (key_le (k x) (k z)); cbn [In]; [intuition|]. rewrite IH. intuition.
-Qed.
+(* ------------------------------------------------------------------------------------------------ *)
+(** * 2. State algebra: the queue field is independent of everything an action does *)
+Lemma set_queue_id s : set_queue s (queue s) = s.
+Proof. destruct s; reflexivity. Qed.
 
-Lemma In_sort k l y : In y (sort_by k l) <-> In y l.
-Proof.
-  unfold sort_by. induction l as [|x l IH]; [reflexivity|].
-  cbn [fold_right]. rewrite In_insert, IH. cbn [In]. intuition.
-Qed.
+Lemma set_queue_twice s q q' : set_queue (set_queue s q) q' = set_queue s q'.
+Proof. reflexivity. Qed.
 
-(** * Detection *)
-Definition is_tx (x : entry) : bool := match t_event (fst x) with EvTx _ _ => true | _ => false end.
+Lemma eff0_set_queue s q a : eff0 (set_queue s q) a = set_queue (eff0 s a) q.
+Proof. destruct a; reflexivity. Qed.
 
-(** the condition of a trigger is met in a block *)
-Definition met (h t : N) (evs : list emitted) (ev : event) : bool :=
-  match ev with
-  | EvHeight x => x <=? h
-  | EvTime x => x <=? t
-  | EvTx name attrs => existsb (tx_matches name attrs) evs
+Lemma register_set_queue s q owner au root ev acts lim pp :
+  register (set_queue s q) owner au root ev acts lim pp = set_queue (register s owner au root ev acts lim pp) q.
+Proof. reflexivity. Qed.
+
+(** * 3. The effect of a complete action list (specification) *)
+Definition eff_action (root : list addr) (plim : N) (nl : option N) (s : state) (a : action) : state :=
+  match a with
+  | ABasic b => eff0 s b
+  | ACreate au ev acts =>
+      match nl, au with
+      | Some lim, owner :: _ => register s owner au root ev (map ABasic acts) lim plim
+      | _, _ => s
+      end
   end.
 
-Lemma cnt_cands ty seen r i :
-  cnt (filter (fun x => listens ty x && negb (mem (eid x) seen)) r) i =
-  if mem i seen then 0%nat else cnt (filter (listens ty) r) i.
+Definition eff_all (root : list addr) (plim : N) (nl : option N) (s : state) (acts : list action) : state :=
+  fold_left (eff_action root plim nl) acts s.
+
+Definition eff_entry (nest : list (N * N)) (s : state) (x : entry * bool) : state :=
+  if snd x
+  then eff_all (t_root (fst (fst x))) (snd (fst x)) (lookupN (eid (fst x)) nest) s (t_actions (fst (fst x)))
+  else s.
+
+Lemma eff_action_set_queue root plim nl s q a :
+  eff_action root plim nl (set_queue s q) a = set_queue (eff_action root plim nl s a) q.
 Proof.
-  induction r as [|x r IH]; [destruct (mem i seen); reflexivity|].
-  cbn [filter]. destruct (listens ty x) eqn:Hl; cbn [andb].
-  - destruct (mem (eid x) seen) eqn:Hm; cbn [negb].
-    + rewrite IH, cnt_cons. destruct (mem i seen) eqn:Hi; [reflexivity|].
-      destruct (eid x =? i) eqn:Hx; [|reflexivity]. apply N.eqb_eq in Hx. congruence.
-    + rewrite !cnt_cons, IH. destruct (mem i seen) eqn:Hi; [|reflexivity].
-      destruct (eid x =? i) eqn:Hx; [|reflexivity]. apply N.eqb_eq in Hx. congruence.
-  - apply IH.
+  destruct a as [b|au ev acts]; cbn [eff_action].
+  - apply eff0_set_queue.
+  - destruct nl as [lim|]; [|reflexivity]. destruct au as [|owner au']; reflexivity.
 Qed.
 
-Lemma mem_app x l1 l2 : mem x (l1 ++ l2) = mem x l1 || mem x l2.
-Proof. unfold mem. apply existsb_app. Qed.
-
-Lemma mem_map_eid l i : mem i (map eid l) = negb (Nat.eqb (cnt l i) 0).
+Lemma eff_all_set_queue root plim nl q : forall acts s,
+  eff_all root plim nl (set_queue s q) acts = set_queue (eff_all root plim nl s acts) q.
 Proof.
-  induction l as [|x l IH]; [reflexivity|].
-  cbn [map]. unfold mem in *. cbn [existsb]. rewrite IH, cnt_cons.
-  rewrite (N.eqb_sym i (eid x)). destruct (eid x =? i); [reflexivity|].
-  cbn [orb]. reflexivity.
+  unfold eff_all. induction acts as [|a r IH]; intros s; cbn [fold_left]; [reflexivity|].
+  rewrite eff_action_set_queue. apply IH.
 Qed.
 
-Lemma cnt_detect_tx evs r : forall seen i,
-  (cnt (detect_tx evs r seen) i <= if mem i seen then 0 else cnt (filter is_tx r) i)%nat.
+Lemma eff_entry_set_queue nest s q x : eff_entry nest (set_queue s q) x = set_queue (eff_entry nest s x) q.
+Proof. unfold eff_entry. destruct (snd x); [apply eff_all_set_queue|reflexivity]. Qed.
+
+Lemma fold_eff_entry_set_queue nest q : forall d s,
+  fold_left (eff_entry nest) d (set_queue s q) = set_queue (fold_left (eff_entry nest) d s) q.
 Proof.
-  induction evs as [|e evs IH]; intros seen i; cbn [detect_tx].
-  - rewrite cnt_nil. lia.
-  - rewrite cnt_app.
-    set (cands := filter (fun x => listens (em_type e) x && negb (mem (eid x) seen)) r).
-    pose proof (cnt_filter_le (ev_matches e) cands i) as Hm.
-    pose proof (cnt_cands (em_type e) seen r i) as Hc. fold cands in Hc.
-    specialize (IH (map eid cands ++ seen) i).
-    rewrite mem_app, mem_map_eid in IH.
-    assert (Hl : (cnt (filter (listens (em_type e)) r) i <= cnt (filter is_tx r) i)%nat).
-    { apply cnt_filter_mono. intros x. unfold listens, is_tx. destruct (t_event (fst x)); congruence. }
-    destruct (mem i seen) eqn:Hs.
-    + rewrite orb_true_r in IH. lia.
-    + rewrite orb_false_r in IH. destruct (Nat.eqb (cnt cands i) 0) eqn:Hz.
-      * apply Nat.eqb_eq in Hz. cbn [negb] in IH. lia.
-      * cbn [negb] in IH. lia.
+  induction d as [|x d IH]; intros s; cbn [fold_left]; [reflexivity|].
+  rewrite eff_entry_set_queue. apply IH.
 Qed.
 
-Lemma cnt_partition h t r i :
-  (cnt (filter is_tx r) i + cnt (filter (ready height_of h) r) i + cnt (filter (ready time_of t) r) i <= cnt r i)%nat.
+Lemma eff_action_queue root plim nl s a : queue (eff_action root plim nl s a) = queue s.
 Proof.
-  induction r as [|x r IH]; [apply le_n|].
-  cbn [filter]. unfold is_tx, ready, height_of, time_of in *.
-  destruct (t_event (fst x)) as [v|v|nm ats].
-  - destruct (v <=? h); rewrite ?cnt_cons; lia.
-  - destruct (v <=? t); rewrite ?cnt_cons; lia.
-  - rewrite !cnt_cons. lia.
+  destruct a as [b|au ev acts]; cbn [eff_action].
+  - apply L_eff0_queue.
+  - destruct nl as [lim|]; [|reflexivity]. destruct au as [|owner au']; reflexivity.
 Qed.
 
-Lemma cnt_detect h t evs r i : (cnt (detect h t evs r) i <= cnt r i)%nat.
+Lemma eff_all_queue root plim nl : forall acts s, queue (eff_all root plim nl s acts) = queue s.
 Proof.
-  unfold detect, detect_height, detect_time. rewrite !cnt_app, !cnt_sort.
-  pose proof (cnt_detect_tx evs r [] i) as H1. cbn [mem existsb] in H1.
-  pose proof (cnt_partition h t r i). lia.
+  unfold eff_all. induction acts as [|a r IH]; intros s; cbn [fold_left]; [reflexivity|].
+  rewrite IH. apply eff_action_queue.
 Qed.
 
-Lemma In_detect_tx evs r : forall seen x,
-  In x (detect_tx evs r seen) -> In x r /\ exists e, In e evs /\ ev_matches e x = true.
+Lemma eff_entry_queue nest s x : queue (eff_entry nest s x) = queue s.
+Proof. unfold eff_entry. destruct (snd x); [apply eff_all_queue|reflexivity]. Qed.
+
+Lemma fold_eff_entry_queue nest : forall d s, queue (fold_left (eff_entry nest) d s) = queue s.
 Proof.
-  induction evs as [|e evs IH]; intros seen x; cbn [detect_tx]; [intros []|].
-  rewrite in_app_iff. intros [H|H].
-  - apply filter_In in H. destruct H as [H1 H2]. apply filter_In in H1. destruct H1 as [H1 _].
-    split; [assumption|]. exists e. split; [left; reflexivity|assumption].
-  - apply IH in H. destruct H as [H1 [e' [H2 H3]]]. split; [assumption|]. exists e'. split; [right; assumption|assumption].
+  induction d as [|x d IH]; intros s; cbn [fold_left]; [reflexivity|].
+  rewrite IH. apply eff_entry_queue.
 Qed.
 
-Lemma In_detect h t evs r x :
-  In x (detect h t evs r) -> In x r /\ met h t evs (t_event (fst x)) = true.
+(** a list of failed entries has no effect at all *)
+Lemma fold_eff_entry_failed nest : forall d s,
+  (forall x, In x d -> snd x = false) -> fold_left (eff_entry nest) d s = s.
 Proof.
-  unfold detect, detect_height, detect_time. rewrite !in_app_iff, !In_sort.
-  intros [H|[H|H]].
-  - apply In_detect_tx in H. destruct H as [H1 [e [H2 H3]]]. split; [assumption|].
-    unfold ev_matches in H3. destruct (t_event (fst x)); try discriminate.
-    cbn [met]. apply existsb_exists. exists e. auto.
-  - apply filter_In in H. destruct H as [H1 H2]. split; [assumption|].
-    unfold ready, height_of in H2. destruct (t_event (fst x)); try discriminate. exact H2.
-  - apply filter_In in H. destruct H as [H1 H2]. split; [assumption|].
-    unfold ready, time_of in H2. destruct (t_event (fst x)); try discriminate. exact H2.
+  induction d as [|x d IH]; intros s H; cbn [fold_left]; [reflexivity|].
+  unfold eff_entry at 2. rewrite (H x (or_introl eq_refl)).
+  apply IH. intros y Hy. apply H. right. exact Hy.
 Qed.
 
-(** * move_all *)
-Lemma move_all_queue d : forall s, queue (move_all s d) = queue s ++ d.
+(* ------------------------------------------------------------------------------------------------ *)
+(** * A. What a dispatch does to the state *)
+Lemma exec0_some t s a s' : exec0 t s a = Some s' -> pre0 t s a = true /\ s' = eff0 s a.
+Proof. unfold exec0. destruct (pre0 t s a); intros H; inversion H. auto. Qed.
+
+(** D. a nested creation that was accepted *)
+Lemma nested_registered h t root plim nl s au ev acts s' :
+  exec_action h t root plim nl s (ACreate au ev acts) = Some s' ->
+  exists owner rest lim,
+    au = owner :: rest /\ nl = Some lim /\ lim + SetGasLimitCost <= plim /\
+    validate_basic0 au ev acts = true /\ event_valid_ctx h t ev = true /\
+    s' = register s owner au root ev (map ABasic acts) lim plim.
 Proof.
-  induction d as [|e d IH]; intros s; cbn [move_all fold_left].
-  - rewrite app_nil_r. reflexivity.
-  - change (fold_left move_one d (move_one s e)) with (move_all (move_one s e) d).
-    rewrite IH. cbn [move_one queue]. rewrite <- app_assoc. reflexivity.
+  cbn [exec_action]. destruct nl as [lim|]; [|discriminate]. destruct au as [|owner rest]; [discriminate|].
+  destruct (validate_basic0 (owner :: rest) ev acts) eqn:Hv; cbn [andb]; [|discriminate].
+  destruct (event_valid_ctx h t ev) eqn:Hc; cbn [andb]; [|discriminate].
+  destruct (lim + SetGasLimitCost <=? plim) eqn:Hl; [|discriminate].
+  intros H. inversion H. exists owner, rest, lim. apply N.leb_le in Hl. repeat split; assumption.
 Qed.
 
-Lemma move_all_next d : forall s, next_id (move_all s d) = next_id s.
+Lemma exec_action_spec h t root plim nl s a s' :
+  exec_action h t root plim nl s a = Some s' -> s' = eff_action root plim nl s a.
 Proof.
-  induction d as [|e d IH]; intros s; cbn [move_all fold_left]; [reflexivity|].
-  change (fold_left move_one d (move_one s e)) with (move_all (move_one s e) d). rewrite IH. reflexivity.
+  destruct a as [b|au ev acts].
+  - cbn [exec_action eff_action]. intros H. apply exec0_some in H. tauto.
+  - intros H. apply nested_registered in H.
+    destruct H as [owner [rest [lim [Hau [Hnl [_ [_ [_ Hs]]]]]]]]. subst. reflexivity.
 Qed.
 
-Lemma move_all_bank d : forall s, bank (move_all s d) = bank s.
+Lemma exec_all_spec h t root plim nl : forall acts s s',
+  exec_all h t root plim nl s acts = Some s' -> s' = eff_all root plim nl s acts.
 Proof.
-  induction d as [|e d IH]; intros s; cbn [move_all fold_left]; [reflexivity|].
-  change (fold_left move_one d (move_one s e)) with (move_all (move_one s e) d). rewrite IH. reflexivity.
+  induction acts as [|a r IH]; intros s s' H.
+  - cbn [exec_all] in H. inversion H. reflexivity.
+  - apply L_exec_all_cons in H. destruct H as [s1 [H1 H2]].
+    apply exec_action_spec in H1. apply IH in H2. subst. reflexivity.
 Qed.
 
-Lemma move_all_reg_cnt d : forall s i,
-  cnt (reg (move_all s d)) i = if Nat.eqb (cnt d i) 0 then cnt (reg s) i else 0%nat.
+(** D. nothing runs after a nested creation *)
+Lemma nested_last h t root plim nl : forall acts s s',
+  exec_all h t root plim nl s acts = Some s' ->
+  forall pre a post, acts = pre ++ a :: post -> (exists au ev l, a = ACreate au ev l) -> post = [].
 Proof.
-  induction d as [|e d IH]; intros s i; cbn [move_all fold_left]; [reflexivity|].
-  change (fold_left move_one d (move_one s e)) with (move_all (move_one s e) d).
-  rewrite IH. cbn [move_one reg]. rewrite cnt_remove_id, cnt_cons.
-  rewrite (N.eqb_sym i (eid e)). destruct (eid e =? i); destruct (Nat.eqb (cnt d i) 0) eqn:Hz; cbn; try reflexivity.
-  all: try (rewrite Hz; reflexivity).
+  induction acts as [|a0 r IH]; intros s s' H pre a post Heq Ha.
+  - destruct pre; discriminate.
+  - destruct pre as [|p pre]; cbn [app] in Heq; injection Heq as H0 Hr.
+    + subst a0 r. destruct Ha as [au [ev [l Ha]]]. subst a.
+      cbn [exec_all] in H. destruct (exec_action h t root plim nl s (ACreate au ev l)); [|discriminate].
+      destruct post; [reflexivity|discriminate].
+    + apply L_exec_all_cons in H. destruct H as [s1 [_ H2]].
+      eapply IH; [exact H2|exact Hr|exact Ha].
 Qed.
 
-Lemma move_all_reg_In d : forall s x, In x (reg (move_all s d)) -> In x (reg s).
-Proof.
-  induction d as [|e d IH]; intros s x; cbn [move_all fold_left]; [auto|].
-  change (fold_left move_one d (move_one s e)) with (move_all (move_one s e) d).
-  intros H. apply IH in H. cbn [move_one reg] in H. unfold remove_id in H. apply filter_In in H. tauto.
-Qed.
-
-(** * Actions *)
-Lemma send_all_apply acts : forall b b', send_all b acts = Some b' -> b' = apply_all b acts.
-Proof.
-  induction acts as [|a acts IH]; intros b b'; cbn [send_all apply_all fold_left].
-  - intros H; inversion H; reflexivity.
-  - destruct (can_send b a); [|discriminate]. intros H. apply IH in H. exact H.
-Qed.
-
-Lemma run_actions_spec b e oracle b' ok :
-  run_actions b e oracle = (b', ok) ->
-  b' = if ok then apply_all b (t_actions (fst e)) else b.
+Lemma run_actions_inv h t s e oracle nest s' ok :
+  run_actions h t s e oracle nest = (s', ok) ->
+  (ok = false /\ s' = s) \/
+  (ok = true /\ exec_all h t (t_root (fst e)) (snd e) (lookupN (eid e) nest) s (t_actions (fst e)) = Some s').
 Proof.
   unfold run_actions.
-  destruct (snd e <? gas_lo * N.of_nat (length (t_actions (fst e)))); [intros H; inversion H; reflexivity|].
-  destruct (mem (eid e) oracle); [intros H; inversion H; reflexivity|].
-  destruct (send_all b (t_actions (fst e))) eqn:Hs; intros H; inversion H; subst; [|reflexivity].
-  apply send_all_apply. assumption.
+  destruct (snd e <? gas_lo * N.of_nat (length (t_actions (fst e)))); [intros H; inversion H; auto|].
+  destruct (mem (eid e) oracle); [intros H; inversion H; auto|].
+  destruct (exec_all h t (t_root (fst e)) (snd e) (lookupN (eid e) nest) s (t_actions (fst e))) as [s1|];
+    intros H; inversion H; subst; auto.
 Qed.
 
-Definition effects (b : bank_t) (d : list (entry * bool)) : bank_t :=
-  fold_left (fun (b : bank_t) (x : entry * bool) => if snd x then apply_all b (t_actions (fst (fst x))) else b) d b.
+Lemma run_actions_spec h t s e oracle nest s' ok :
+  run_actions h t s e oracle nest = (s', ok) -> s' = eff_entry nest s (e, ok).
+Proof.
+  intros H. apply run_actions_inv in H. destruct H as [[Hok Hs]|[Hok Hx]]; subst ok.
+  - subst. reflexivity.
+  - unfold eff_entry. cbn [fst snd]. eapply exec_all_spec. exact Hx.
+Qed.
 
+(** the effects of a begin blocker: exactly the effects of the entries that succeeded, in order *)
+Theorem dispatch_effects h t oracle nest : forall fuel gas s s' d,
+  dispatch fuel h t gas s oracle nest = (s', d) ->
+  s' = set_queue (fold_left (eff_entry nest) d s) (skipn (length d) (queue s)).
+Proof.
+  induction fuel as [|f IH]; intros gas s s' d H.
+  - cbn [dispatch] in H. inversion H; subst. cbn [fold_left length skipn]. symmetry. apply set_queue_id.
+  - apply L_dispatch_S in H.
+    destruct H as [[_ [Hs Hd]]|[[e [rest [_ [_ [Hs Hd]]]]]|[e [rest [s1 [ok [l [EQ [_ [ER [ED Hd]]]]]]]]]]].
+    + subst. cbn [fold_left length skipn]. symmetry. apply set_queue_id.
+    + subst. cbn [fold_left length skipn]. symmetry. apply set_queue_id.
+    + apply IH in ED. apply run_actions_spec in ER. rewrite eff_entry_set_queue in ER.
+      subst d. cbn [fold_left length]. rewrite EQ. cbn [skipn].
+      rewrite ED, ER. cbn [queue set_queue]. rewrite fold_eff_entry_set_queue. reflexivity.
+Qed.
+
+Theorem dispatch_all_failed h t oracle nest fuel gas s s' d :
+  dispatch fuel h t gas s oracle nest = (s', d) ->
+  (forall x, In x d -> snd x = false) ->
+  cfg s' = cfg s /\ reg s' = reg s /\ next_id s' = next_id s /\ bank s' = bank s /\ rbank s' = rbank s /\
+  names s' = names s /\ grants s' = grants s /\ queue s' = skipn (length d) (queue s).
+Proof.
+  intros H Hf. apply dispatch_effects in H. rewrite (fold_eff_entry_failed nest d s Hf) in H.
+  subst s'. cbn [set_queue cfg reg next_id bank rbank names grants queue]. repeat split; reflexivity.
+Qed.
+
+(** the queue side of a dispatch *)
 Definition sum_lim (l : list entry) : N := fold_right (fun e acc => snd e + acc) 0 l.
 
-Lemma dispatch_spec fuel : forall gas s oracle s' d,
-  dispatch fuel gas s oracle = (s', d) ->
-  queue s = map fst d ++ queue s' /\ reg s' = reg s /\ next_id s' = next_id s /\
-  (length d <= fuel)%nat /\
-  (gas <= MaximumQueueGas -> gas + sum_lim (map fst d) <= MaximumQueueGas) /\
-  bank s' = effects (bank s) d.
+Lemma dispatch_spec h t oracle nest : forall fuel gas s s' d,
+  dispatch fuel h t gas s oracle nest = (s', d) ->
+  queue s = map fst d ++ queue s' /\ (length d <= fuel)%nat /\
+  (gas <= MaximumQueueGas -> gas + sum_lim (map fst d) <= MaximumQueueGas).
 Proof.
-  induction fuel as [|f IH]; intros gas s oracle s' d; cbn [dispatch].
-  - intros H; inversion H; subst. cbn. repeat split; try reflexivity; try lia.
-  - destruct (queue s) as [|e rest] eqn:Hq.
-    + intros H; inversion H; subst. cbn. rewrite Hq. repeat split; try reflexivity; try lia.
-    + destruct (MaximumQueueGas <? snd e + gas) eqn:Hg.
-      * intros H; inversion H; subst. cbn. rewrite Hq. repeat split; try reflexivity; try lia.
-      * destruct (run_actions (bank s) e oracle) as [b' ok] eqn:Hr.
-        destruct (dispatch f (gas + snd e) _ oracle) as [s2 l] eqn:Hd.
-        intros H; inversion H; subst. apply IH in Hd. cbn [queue reg next_id bank] in Hd.
-        destruct Hd as [H1 [H2 [H3 [H4 [H5 H6]]]]].
-        apply run_actions_spec in Hr. apply N.ltb_ge in Hg.
-        cbn [map fst length sum_lim fold_right app]. repeat split.
-        -- rewrite H1. reflexivity.
-        -- assumption.
-        -- assumption.
-        -- lia.
-        -- intros _. fold (sum_lim (map fst l)). assert (gas + snd e <= MaximumQueueGas) by lia. specialize (H5 H0). lia.
-        -- rewrite H6. unfold effects. cbn [fold_left fst snd]. rewrite Hr. reflexivity.
+  induction fuel as [|f IH]; intros gas s s' d H.
+  - cbn [dispatch] in H. inversion H; subst. cbn [map app length sum_lim fold_right]. repeat split; lia.
+  - apply L_dispatch_S in H.
+    destruct H as [[_ [Hs Hd]]|[[e [rest [_ [_ [Hs Hd]]]]]|[e [rest [s1 [ok [l [EQ [EG [ER [ED Hd]]]]]]]]]]].
+    + subst. cbn [map app length sum_lim fold_right]. repeat split; lia.
+    + subst. cbn [map app length sum_lim fold_right]. repeat split; lia.
+    + apply IH in ED. apply run_actions_queue in ER. cbn [queue set_queue] in ER. rewrite ER in ED.
+      destruct ED as [D1 [D2 D3]]. apply N.ltb_ge in EG. subst d.
+      cbn [map fst app length sum_lim fold_right]. fold (sum_lim (map fst l)). repeat split.
+      * rewrite EQ, D1. reflexivity.
+      * lia.
+      * intros _. assert (HG : gas + snd e <= MaximumQueueGas) by lia. specialize (D3 HG). lia.
 Qed.
 
-(** * The invariant: where every trigger is, together with the history of detections and dispatches *)
-Definition good (e : entry) : Prop :=
-  snd e <= MaximumTriggerGas /\ snd e <= t_prepaid (fst e) /\
-  In (t_owner (fst e)) (t_auths (fst e)) /\
-  forall a x, In a (t_actions (fst e)) -> In x (a_signers a) -> In x (t_auths (fst e)).
-
-Record Inv (s : state) (det disp : list entry) : Prop := {
-  I_one : forall i, (cnt (reg s) i + cnt det i <= 1)%nat;
-  I_bound : forall i, (0 < cnt (reg s) i + cnt det i)%nat -> 1 <= i < next_id s;
-  I_fifo : det = disp ++ queue s;
-  I_good : forall e, In e (reg s) \/ In e det -> good e;
-  I_next : 1 <= next_id s
-}.
-
-Lemma Inv_init b : Inv (init b) [] [].
-Proof.
-  constructor; cbn; intros; try lia; try reflexivity; try tauto.
-Qed.
-
-Lemma Inv_dispatch fuel gas s oracle s' d det disp :
-  Inv s det disp -> dispatch fuel gas s oracle = (s', d) -> Inv s' det (disp ++ map fst d).
-Proof.
-  intros [H1 H2 H3 H4 H5] Hd. apply dispatch_spec in Hd. destruct Hd as [Q [R [Nx _]]].
-  constructor; rewrite ?R, ?Nx; try assumption.
-  rewrite H3, Q, app_assoc. reflexivity.
-Qed.
-
+(* ------------------------------------------------------------------------------------------------ *)
+(** * Validation facts *)
 Lemma addrs_eqb_eq x : forall y, addrs_eqb x y = true -> x = y.
 Proof.
-  induction x as [|a x IH]; intros [|b y]; cbn; try discriminate; [reflexivity|].
+  induction x as [|a x IH]; intros [|b y]; cbn [addrs_eqb]; try discriminate; [reflexivity|].
   intros H. apply andb_true_iff in H. destruct H as [Ha Hx]. apply N.eqb_eq in Ha. apply IH in Hx. congruence.
+Qed.
+
+Lemma signed_by_In au sg x : signed_by au sg = true -> In x sg -> In x au.
+Proof.
+  unfold signed_by. rewrite forallb_forall. intros H Hx. apply mem_In. apply H. exact Hx.
+Qed.
+
+Lemma validate_basic0_inv au ev acts :
+  validate_basic0 au ev acts = true ->
+  acts <> [] /\ event_valid ev = true /\
+  forall b x, In b acts -> In x (signers0 b) -> In x au.
+Proof.
+  unfold validate_basic0. rewrite !andb_true_iff. intros [[Hne Hev] Ha].
+  split; [destruct acts; [discriminate|congruence]|]. split; [exact Hev|].
+  intros b x Hb Hx. rewrite forallb_forall in Ha. specialize (Ha b Hb).
+  apply andb_true_iff in Ha. destruct Ha as [_ Ha]. eapply signed_by_In; eassumption.
+Qed.
+
+Lemma validate_basic_inv au ev acts :
+  validate_basic au ev acts = true ->
+  acts <> [] /\ event_valid ev = true /\
+  forall a x, In a acts -> In x (a_signers a) -> In x au.
+Proof.
+  unfold validate_basic. rewrite !andb_true_iff. intros [[Hne Hev] Ha].
+  split; [destruct acts; [discriminate|congruence]|]. split; [exact Hev|].
+  intros a x Hin Hx. rewrite forallb_forall in Ha. specialize (Ha a Hin).
+  unfold action_ok in Ha. apply andb_true_iff in Ha. destruct Ha as [_ Ha]. eapply signed_by_In; eassumption.
 Qed.
 
 Lemma find_id_some i l e : find_id i l = Some e -> In e l /\ eid e = i.
@@ -328,18 +350,26 @@ Lemma find_id_none i l : find_id i l = None -> cnt l i = 0%nat.
 Proof.
   unfold find_id. intros H. destruct (Nat.eq_dec (cnt l i) 0) as [|Hn]; [assumption|].
   assert (Hp : (0 < cnt l i)%nat) by lia. apply cnt_pos_In in Hp. destruct Hp as [e [He1 He2]].
-  pose proof (find_none _ _ H e He1) as Hf. cbn in Hf. apply N.eqb_neq in Hf. contradiction.
+  pose proof (find_none _ _ H e He1) as Hf. cbn beta in Hf. apply N.eqb_neq in Hf. contradiction.
+Qed.
+
+Lemma destroy_pre t s who id :
+  pre0 t s (ADestroy who id) = true ->
+  id <> 0 /\ exists e, In e (reg s) /\ eid e = id /\ t_owner (fst e) = who.
+Proof.
+  cbn [pre0]. rewrite andb_true_iff, negb_true_iff, N.eqb_neq. intros [Hid H]. split; [exact Hid|].
+  destruct (find_id id (reg s)) as [e|] eqn:Hf; [|discriminate].
+  apply find_id_some in Hf. apply N.eqb_eq in H. exists e. tauto.
 Qed.
 
 (** what an accepted creation looks like *)
 Lemma create_accepted h t s sg au ev acts g u s' :
   apply_tx h t s (TCreate sg au ev acts g u) = (s', true) ->
-  sg = au /\ (forall a x, In a acts -> In x (a_signers a) -> In x au) /\ acts <> [] /\ event_valid_ctx h t ev = true /\
+  sg = au /\ (forall a x, In a acts -> In x (a_signers a) -> In x au) /\ acts <> [] /\
+  event_valid_ctx h t ev = true /\ event_valid ev = true /\
   exists owner rest lim,
-    au = owner :: rest /\ lim <= MaximumTriggerGas /\ lim <= g /\
-    s' = {| reg := reg s ++ [({| t_id := next_id s; t_owner := owner; t_event := ev; t_actions := acts;
-                                  t_auths := au; t_prepaid := g |}, lim)];
-            queue := queue s; next_id := next_id s + 1; bank := bank s |}.
+    au = owner :: rest /\ lim <= MaximumTriggerGas /\ lim + SetGasLimitCost <= g /\
+    s' = register s owner au au ev acts lim g.
 Proof.
   cbn [apply_tx].
   destruct (validate_basic au ev acts) eqn:Hv; cbn [negb]; [|intros H; inversion H].
@@ -349,82 +379,288 @@ Proof.
   destruct (g <? u) eqn:Hgu; [intros H; inversion H|].
   destruct (g - u <? SetGasLimitCost) eqn:Hr; [intros H; inversion H|].
   intros H. inversion H; subst; clear H.
-  apply addrs_eqb_eq in Hs.
-  unfold validate_basic in Hv. apply andb_true_iff in Hv. destruct Hv as [Hv Ha].
-  apply andb_true_iff in Hv. destruct Hv as [Hne _].
-  split; [assumption|]. split.
-  { intros a x Hin Hx. rewrite forallb_forall in Ha. specialize (Ha a Hin). unfold action_ok in Ha.
-    rewrite forallb_forall in Ha. apply mem_In. apply Ha. assumption. }
-  split. { destruct acts; [discriminate|congruence]. }
-  split; [reflexivity|].
+  apply addrs_eqb_eq in Hs. apply validate_basic_inv in Hv. destruct Hv as [Hne [Hev Hsig]].
+  apply N.ltb_ge in Hgu. apply N.ltb_ge in Hr.
+  split; [assumption|]. split; [exact Hsig|]. split; [exact Hne|]. split; [reflexivity|]. split; [exact Hev|].
   exists owner, rest, (N.min (g - u - SetGasLimitCost) MaximumTriggerGas).
   split; [reflexivity|]. split; [lia|]. split; [lia|]. reflexivity.
+Qed.
+
+(** a rejected transaction leaves the state unchanged *)
+Lemma apply_tx_rejected h t s x s' : apply_tx h t s x = (s', false) -> s' = s.
+Proof.
+  destruct x as [signers auths ev acts txgas used|who id|from to amt]; cbn [apply_tx].
+  - destruct (negb (validate_basic auths ev acts)); [intros H; inversion H; reflexivity|].
+    destruct (negb (addrs_eqb signers auths)); [intros H; inversion H; reflexivity|].
+    destruct auths; [intros H; inversion H; reflexivity|].
+    destruct (negb (event_valid_ctx h t ev)); [intros H; inversion H; reflexivity|].
+    destruct (txgas <? used); [intros H; inversion H; reflexivity|].
+    destruct (txgas - used <? SetGasLimitCost); intros H; inversion H; reflexivity.
+  - destruct (exec0 t s (ADestroy who id)); intros H; inversion H; reflexivity.
+  - destruct (exec0 t s (ASend from to amt)); intros H; inversion H; reflexivity.
+Qed.
+
+(** an accepted transaction is a creation or a basic message that took effect *)
+Lemma apply_tx_accepted h t s x s' :
+  apply_tx h t s x = (s', true) ->
+  (exists sg au ev acts g u, x = TCreate sg au ev acts g u) \/
+  (exists b, pre0 t s b = true /\ s' = eff0 s b /\
+             (x = TDestroy (match b with ADestroy w _ => w | _ => 0 end) (match b with ADestroy _ i => i | _ => 0 end)
+              \/ exists f to amt, x = TSend f to amt)).
+Proof.
+  destruct x as [signers auths ev acts txgas used|who id|from to amt].
+  - intros _. left. exists signers, auths, ev, acts, txgas, used. reflexivity.
+  - cbn [apply_tx]. destruct (exec0 t s (ADestroy who id)) as [s1|] eqn:E; intros H; inversion H; subst.
+    apply exec0_some in E. right. exists (ADestroy who id). split; [tauto|]. split; [tauto|]. left. reflexivity.
+  - cbn [apply_tx]. destruct (exec0 t s (ASend from to amt)) as [s1|] eqn:E; intros H; inversion H; subst.
+    apply exec0_some in E. right. exists (ASend from to amt). split; [tauto|]. split; [tauto|].
+    right. exists from, to, amt. reflexivity.
+Qed.
+
+Lemma apply_txs_app h t : forall l1 l2 s s' oks,
+  apply_txs h t s (l1 ++ l2) = (s', oks) ->
+  exists sa o1 o2, apply_txs h t s l1 = (sa, o1) /\ apply_txs h t sa l2 = (s', o2) /\
+                   oks = o1 ++ o2 /\ length o1 = length l1.
+Proof.
+  induction l1 as [|x l1 IH]; intros l2 s s' oks H.
+  - cbn [app] in H. exists s, [], oks. cbn [apply_txs app length]. auto.
+  - cbn [app] in H. apply L_apply_txs_cons in H. destruct H as [s1 [ok [oks' [H1 [H2 Ho]]]]].
+    apply IH in H2. destruct H2 as [sa [o1 [o2 [A1 [A2 [A3 A4]]]]]].
+    exists sa, (ok :: o1), o2. cbn [apply_txs]. rewrite H1, A1. cbn [app length].
+    repeat split; [exact A2|subst; reflexivity|congruence].
+Qed.
+
+(* ------------------------------------------------------------------------------------------------ *)
+(** * move_all *)
+Lemma move_all_cons s e d : move_all s (e :: d) = move_all (move_one s e) d.
+Proof. reflexivity. Qed.
+
+Lemma move_all_next d : forall s, next_id (move_all s d) = next_id s.
+Proof.
+  induction d as [|e d IH]; intros s; [reflexivity|]. rewrite move_all_cons, IH. reflexivity.
+Qed.
+
+Lemma move_all_reg_cnt d : forall s i,
+  cnt (reg (move_all s d)) i = if Nat.eqb (cnt d i) 0 then cnt (reg s) i else 0%nat.
+Proof.
+  induction d as [|e d IH]; intros s i; [reflexivity|].
+  rewrite move_all_cons, IH. cbn [move_one reg set_queue set_reg]. rewrite cnt_remove_id, cnt_cons.
+  rewrite (N.eqb_sym i (eid e)). destruct (eid e =? i); destruct (Nat.eqb (cnt d i) 0) eqn:Hz; cbn [Nat.add Nat.eqb]; try reflexivity.
+  all: try (rewrite Hz; reflexivity).
+Qed.
+
+Lemma move_all_reg_In d : forall s x, In x (reg (move_all s d)) -> In x (reg s).
+Proof.
+  induction d as [|e d IH]; intros s x; [auto|]. rewrite move_all_cons.
+  intros H. apply IH in H. cbn [move_one reg set_queue set_reg] in H. apply L_remove_id_incl in H. exact H.
+Qed.
+
+(* ------------------------------------------------------------------------------------------------ *)
+(** * B. The invariant: where every trigger is, together with the history of detections and dispatches *)
+Definition time_ok (e : entry) : Prop :=
+  match t_event (fst e) with EvTime w => (0 <= w <= max_int64)%Z | _ => True end.
+
+Definition good (e : entry) : Prop :=
+  snd e <= MaximumTriggerGas /\ snd e + SetGasLimitCost <= t_prepaid (fst e) /\
+  In (t_owner (fst e)) (t_auths (fst e)) /\
+  (forall a x, In a (t_actions (fst e)) -> In x (a_signers a) -> In x (t_auths (fst e))) /\
+  (forall x, In x (t_auths (fst e)) -> In x (t_root (fst e))).
+
+Record Inv (s : state) (det disp : list entry) : Prop := {
+  I_one : forall i, (cnt (reg s) i + cnt det i <= 1)%nat;
+  I_bound : forall i, (0 < cnt (reg s) i + cnt det i)%nat -> 1 <= i < next_id s;
+  I_fifo : det = disp ++ queue s;
+  I_good : forall e, In e (reg s) \/ In e det -> good e;
+  I_next : 1 <= next_id s
+}.
+
+(** a well-formed imported genesis state: what is queued counts as detected, nothing dispatched yet *)
+Definition wf_gen (s : state) : Prop := Inv s (queue s) [].
+
+Definition TimeOk (s : state) : Prop := forall e, In e (reg s) -> time_ok e.
+
+Lemma wf_gen_init c b rb : wf_gen (init_cfg c b rb).
+Proof.
+  constructor; cbn [init_cfg reg queue next_id app]; intros; rewrite ?cnt_nil in *; try lia; try reflexivity.
+  destruct H as [[]|[]].
+Qed.
+
+Lemma wf_gen_init0 b : wf_gen (init b).
+Proof. apply wf_gen_init. Qed.
+
+Lemma TimeOk_init c b rb : TimeOk (init_cfg c b rb).
+Proof. intros e []. Qed.
+
+(** what [wf_gen] asks of an imported genesis: distinct ids over registry and queue together, all of them
+    in [1, next id), every stored trigger [good] *)
+Lemma wf_gen_init_gen c b rb r q nx :
+  wf_gen (init_gen c b rb r q nx) <->
+  NoDup (map eid (r ++ q)) /\ 1 <= nx /\ forall e, In e (r ++ q) -> 1 <= eid e < nx /\ good e.
+Proof.
+  unfold wf_gen. split.
+  - intros [H1 H2 _ H4 H5]. cbn [init_gen reg queue next_id] in *. split; [|split].
+    + apply cnt_le1_NoDup. intros i. rewrite cnt_app. apply H1.
+    + exact H5.
+    + intros e He. split.
+      * apply H2. rewrite <- cnt_app. apply cnt_pos_In. exists e. auto.
+      * apply H4. apply in_app_or. exact He.
+  - intros [Hnd [Hnx Hall]]. constructor; cbn [init_gen reg queue next_id app].
+    + intros i. rewrite <- cnt_app. apply NoDup_cnt_le1. exact Hnd.
+    + intros i Hp. rewrite <- cnt_app in Hp. apply cnt_pos_In in Hp. destruct Hp as [e [He1 He2]].
+      subst i. apply Hall. exact He1.
+    + reflexivity.
+    + intros e He. apply Hall. apply in_or_app. exact He.
+    + exact Hnx.
+Qed.
+
+Lemma TimeOk_init_gen c b rb r q nx : TimeOk (init_gen c b rb r q nx) <-> forall e, In e r -> time_ok e.
+Proof. reflexivity. Qed.
+
+Lemma Inv_NoDup_reg s det disp : Inv s det disp -> NoDup (map eid (reg s)).
+Proof. intros HI. apply cnt_le1_NoDup. intros i. pose proof (I_one _ _ _ HI i). lia. Qed.
+
+Lemma Inv_same s s' det disp :
+  reg s' = reg s -> queue s' = queue s -> next_id s' = next_id s -> Inv s det disp -> Inv s' det disp.
+Proof. intros R Q Nx [H1 H2 H3 H4 H5]. constructor; rewrite ?R, ?Q, ?Nx; assumption. Qed.
+
+Lemma Inv_remove s i det disp : Inv s det disp -> Inv (set_reg s (remove_id i (reg s))) det disp.
+Proof.
+  intros [H1 H2 H3 H4 H5]. constructor; cbn [set_reg reg queue next_id]; try assumption.
+  - intros j. rewrite cnt_remove_id. specialize (H1 j). destruct (j =? i); lia.
+  - intros j Hp. apply H2. rewrite cnt_remove_id in Hp. destruct (j =? i); lia.
+  - intros e [He|He]; [|apply H4; right; assumption].
+    apply L_remove_id_incl in He. apply H4. left. exact He.
+Qed.
+
+Lemma Inv_eff0 s a det disp : Inv s det disp -> Inv (eff0 s a) det disp.
+Proof.
+  intros HI. destruct a; cbn [eff0]; try (apply (Inv_same s); [reflexivity|reflexivity|reflexivity|exact HI]).
+  apply Inv_remove. exact HI.
+Qed.
+
+Lemma Inv_register s owner au root ev acts lim pp det disp :
+  Inv s det disp ->
+  good ({| t_id := next_id s; t_owner := owner; t_event := ev; t_actions := acts;
+           t_auths := au; t_root := root; t_prepaid := pp |}, lim) ->
+  Inv (register s owner au root ev acts lim pp) det disp.
+Proof.
+  intros [H1 H2 H3 H4 H5] Hg. constructor; cbn [register reg queue next_id].
+  - intros i. rewrite cnt_app, cnt_cons, cnt_nil. unfold eid at 1. cbn [fst t_id].
+    destruct (next_id s =? i) eqn:Hn; [|specialize (H1 i); lia].
+    apply N.eqb_eq in Hn. subst i.
+    destruct (Nat.eq_dec (cnt (reg s) (next_id s) + cnt det (next_id s)) 0) as [Hz|Hz]; [lia|].
+    assert (Hp : (0 < cnt (reg s) (next_id s) + cnt det (next_id s))%nat) by lia.
+    apply H2 in Hp. lia.
+  - intros i. rewrite cnt_app, cnt_cons, cnt_nil. unfold eid at 1. cbn [fst t_id].
+    destruct (next_id s =? i) eqn:Hn.
+    + apply N.eqb_eq in Hn. subst i. lia.
+    + intros Hp. assert (Hq : (0 < cnt (reg s) i + cnt det i)%nat) by lia. apply H2 in Hq. lia.
+  - assumption.
+  - intros e [He|He]; [|apply H4; right; assumption].
+    apply in_app_iff in He. destruct He as [He|[He|[]]]; [apply H4; left; assumption|].
+    subst e. exact Hg.
+  - lia.
+Qed.
+
+Lemma Inv_exec_action h t root plim nl s a s' det disp :
+  Inv s det disp -> plim <= MaximumTriggerGas ->
+  (forall x, In x (a_signers a) -> In x root) ->
+  exec_action h t root plim nl s a = Some s' -> Inv s' det disp.
+Proof.
+  intros HI HP HR H. destruct a as [b|au ev acts].
+  - cbn [exec_action] in H. apply exec0_some in H. destruct H as [_ H]. subst s'. apply Inv_eff0. exact HI.
+  - apply nested_registered in H. destruct H as [owner [rest [lim [Hau [Hnl [Hlim [Hv [Hc Hs]]]]]]]].
+    subst s'. apply Inv_register; [exact HI|].
+    apply validate_basic0_inv in Hv. destruct Hv as [_ [_ Hsig]].
+    unfold good; cbn [fst snd t_prepaid t_owner t_auths t_actions t_root].
+    split; [lia|]. split; [exact Hlim|]. split; [rewrite Hau; left; reflexivity|]. split.
+    + intros a x Ha Hx. apply in_map_iff in Ha. destruct Ha as [b [Hb Hin]]. subst a. cbn [a_signers] in Hx.
+      eapply Hsig; eassumption.
+    + intros x Hx. apply HR. exact Hx.
+Qed.
+
+Lemma Inv_exec_all h t root plim nl det disp : plim <= MaximumTriggerGas ->
+  forall acts s s',
+  (forall a x, In a acts -> In x (a_signers a) -> In x root) ->
+  Inv s det disp -> exec_all h t root plim nl s acts = Some s' -> Inv s' det disp.
+Proof.
+  intros HP. induction acts as [|a r IH]; intros s s' HR HI H.
+  - cbn [exec_all] in H. inversion H; subst. exact HI.
+  - apply L_exec_all_cons in H. destruct H as [s1 [H1 H2]].
+    eapply IH; [|eapply Inv_exec_action; [exact HI|exact HP| |exact H1]|exact H2].
+    + intros a' x Ha Hx. eapply HR; [right; exact Ha|exact Hx].
+    + intros x Hx. eapply HR; [left; reflexivity|exact Hx].
+Qed.
+
+(** the running trigger [e] is NOT in the queue any more: [dispatch] popped it *)
+Lemma Inv_run_actions h t s e oracle nest s' ok det disp :
+  Inv s det disp -> good e -> run_actions h t s e oracle nest = (s', ok) -> Inv s' det disp.
+Proof.
+  intros HI [G1 [_ [_ [G4 G5]]]] H. apply run_actions_inv in H. destruct H as [[_ Hs]|[_ Hx]].
+  - subst. exact HI.
+  - eapply Inv_exec_all; [exact G1| |exact HI|exact Hx].
+    intros a x Ha Hx'. apply G5. eapply G4; eassumption.
+Qed.
+
+Lemma Inv_dispatch h t oracle nest : forall fuel gas s s' d det disp,
+  Inv s det disp -> dispatch fuel h t gas s oracle nest = (s', d) -> Inv s' det (disp ++ map fst d).
+Proof.
+  induction fuel as [|f IH]; intros gas s s' d det disp HI H.
+  - cbn [dispatch] in H. inversion H; subst. cbn [map]. rewrite app_nil_r. exact HI.
+  - apply L_dispatch_S in H.
+    destruct H as [[_ [Hs Hd]]|[[e [rest [_ [_ [Hs Hd]]]]]|[e [rest [s1 [ok [l [EQ [_ [ER [ED Hd]]]]]]]]]]].
+    + subst. cbn [map]. rewrite app_nil_r. exact HI.
+    + subst. cbn [map]. rewrite app_nil_r. exact HI.
+    + subst d. cbn [map fst].
+      replace (disp ++ e :: map fst l) with ((disp ++ [e]) ++ map fst l) by (rewrite <- app_assoc; reflexivity).
+      eapply IH; [|exact ED].
+      assert (Hg : good e).
+      { apply (I_good _ _ _ HI). right. rewrite (I_fifo _ _ _ HI), EQ. apply in_or_app. right. left. reflexivity. }
+      eapply Inv_run_actions; [|exact Hg|exact ER].
+      destruct HI as [H1 H2 H3 H4 H5]. constructor; cbn [set_queue reg queue next_id]; try assumption.
+      rewrite H3, EQ, <- app_assoc. reflexivity.
 Qed.
 
 Lemma Inv_tx h t s x s' ok det disp :
   Inv s det disp -> apply_tx h t s x = (s', ok) -> Inv s' det disp.
 Proof.
   intros HI Hx. destruct ok.
-  2:{ (* a rejected transaction leaves the state unchanged *)
-      assert (s' = s); [|subst; assumption].
-      destruct x; cbn [apply_tx] in Hx.
-      - destruct (negb (validate_basic auths ev acts)); [inversion Hx; reflexivity|].
-        destruct (negb (addrs_eqb signers auths)); [inversion Hx; reflexivity|].
-        destruct auths; [inversion Hx; reflexivity|].
-        destruct (negb (event_valid_ctx h t ev)); [inversion Hx; reflexivity|].
-        destruct (txgas <? used); [inversion Hx; reflexivity|].
-        destruct (txgas - used <? SetGasLimitCost); inversion Hx; reflexivity.
-      - destruct (id =? 0); [inversion Hx; reflexivity|].
-        destruct (find_id id (reg s)); [|inversion Hx; reflexivity].
-        destruct (negb (t_owner (fst e) =? who)); inversion Hx; reflexivity.
-      - destruct (can_send (bank s) _); inversion Hx; reflexivity. }
-  destruct HI as [H1 H2 H3 H4 H5].
-  destruct x.
-  - apply create_accepted in Hx. destruct Hx as [_ [Hs [_ [_ [owner [rest [lim [Hau [Hl1 [Hl2 Hs']]]]]]]]]].
-    subst s'. constructor; cbn [reg queue next_id].
-    + intros i. rewrite cnt_app, cnt_cons, cnt_nil. unfold eid at 1. cbn [fst t_id].
-      destruct (next_id s =? i) eqn:Hn; [|specialize (H1 i); lia].
-      apply N.eqb_eq in Hn. subst i.
-      destruct (Nat.eq_dec (cnt (reg s) (next_id s) + cnt det (next_id s)) 0) as [Hz|Hz]; [lia|].
-      assert (Hp : (0 < cnt (reg s) (next_id s) + cnt det (next_id s))%nat) by lia.
-      apply H2 in Hp. lia.
-    + intros i. rewrite cnt_app, cnt_cons, cnt_nil. unfold eid at 1. cbn [fst t_id].
-      destruct (next_id s =? i) eqn:Hn.
-      * apply N.eqb_eq in Hn. subst i. lia.
-      * intros Hp. assert (Hq : (0 < cnt (reg s) i + cnt det i)%nat) by lia. apply H2 in Hq. lia.
-    + assumption.
-    + intros e [He|He]; [|apply H4; right; assumption].
-      apply in_app_iff in He. destruct He as [He|[He|[]]]; [apply H4; left; assumption|].
-      subst e. unfold good. cbn [fst snd t_prepaid t_owner t_auths t_actions].
-      split; [assumption|]. split; [assumption|]. split; [rewrite Hau; left; reflexivity|]. assumption.
-    + lia.
-  - cbn [apply_tx] in Hx. destruct (id =? 0); [inversion Hx|].
-    destruct (find_id id (reg s)) as [e|]; [|inversion Hx].
-    destruct (negb (t_owner (fst e) =? who)); inversion Hx; subst s'; clear Hx.
-    constructor; cbn [reg queue next_id]; try assumption.
-    + intros i. rewrite cnt_remove_id. specialize (H1 i). destruct (i =? id); lia.
-    + intros i Hp. apply H2. rewrite cnt_remove_id in Hp. destruct (i =? id); lia.
-    + intros e' [He|He]; [|apply H4; right; assumption].
-      unfold remove_id in He. apply filter_In in He. apply H4. left. tauto.
-  - cbn [apply_tx] in Hx. destruct (can_send (bank s) _); inversion Hx; subst s'; clear Hx.
-    constructor; cbn [reg queue next_id]; assumption.
+  2:{ apply apply_tx_rejected in Hx. subst. exact HI. }
+  destruct (apply_tx_accepted _ _ _ _ _ Hx) as [[sg [au [ev [acts [g [u Hc]]]]]]|[b [_ [Hs _]]]].
+  - subst x. apply create_accepted in Hx.
+    destruct Hx as [_ [Hsig [_ [_ [_ [owner [rest [lim [Hau [Hl1 [Hl2 Hs']]]]]]]]]]].
+    subst s'. apply Inv_register; [exact HI|].
+    unfold good; cbn [fst snd t_prepaid t_owner t_auths t_actions t_root].
+    split; [exact Hl1|]. split; [exact Hl2|]. split; [rewrite Hau; left; reflexivity|]. split; [exact Hsig|auto].
+  - subst s'. apply Inv_eff0. exact HI.
 Qed.
 
 Lemma Inv_txs h t l : forall s s' oks det disp,
   Inv s det disp -> apply_txs h t s l = (s', oks) -> Inv s' det disp.
 Proof.
-  induction l as [|x l IH]; intros s s' oks det disp HI; cbn [apply_txs].
-  - intros H; inversion H; subst; assumption.
-  - destruct (apply_tx h t s x) as [s1 ok] eqn:Hx. destruct (apply_txs h t s1 l) as [s2 oks'] eqn:Hl.
-    intros H; inversion H; subst. eapply IH; [|eassumption]. eapply Inv_tx; eassumption.
+  induction l as [|x l IH]; intros s s' oks det disp HI H.
+  - cbn [apply_txs] in H. inversion H; subst; assumption.
+  - apply L_apply_txs_cons in H. destruct H as [s1 [ok [oks' [H1 [H2 _]]]]].
+    eapply IH; [|exact H2]. eapply Inv_tx; eassumption.
+Qed.
+
+(** detection: what is detected is in the registry, once *)
+Lemma cnt_detect h t evs r i : NoDup (map eid r) -> (cnt (detect h t evs r) i <= cnt r i)%nat.
+Proof.
+  intros Hnd. pose proof (NoDup_cnt_le1 _ (detect_nodup h t evs r Hnd) i) as H1.
+  destruct (Nat.eq_dec (cnt (detect h t evs r) i) 0) as [Hz|Hz]; [lia|].
+  assert (Hp : (0 < cnt (detect h t evs r) i)%nat) by lia.
+  apply cnt_pos_In in Hp. destruct Hp as [e [He1 He2]]. apply L_detect_incl in He1.
+  assert (0 < cnt r i)%nat by (apply cnt_pos_In; exists e; auto). lia.
 Qed.
 
 Lemma Inv_detect h t evs s det disp :
   Inv s det disp ->
   Inv (move_all s (detect h t evs (reg s))) (det ++ detect h t evs (reg s)) disp.
 Proof.
-  intros [H1 H2 H3 H4 H5]. set (D := detect h t evs (reg s)).
-  assert (HD : forall i, (cnt D i <= cnt (reg s) i)%nat) by (intros i; apply cnt_detect).
+  intros HI. pose proof (Inv_NoDup_reg _ _ _ HI) as Hnd. destruct HI as [H1 H2 H3 H4 H5].
+  set (D := detect h t evs (reg s)).
+  assert (HD : forall i, (cnt D i <= cnt (reg s) i)%nat) by (intros i; apply cnt_detect; exact Hnd).
   constructor.
   - intros i. rewrite move_all_reg_cnt, cnt_app. specialize (H1 i). specialize (HD i).
     destruct (Nat.eqb (cnt D i) 0) eqn:Hz; [apply Nat.eqb_eq in Hz|]; lia.
@@ -434,39 +670,41 @@ Proof.
   - intros e [He|He].
     + apply H4. left. eapply move_all_reg_In. eassumption.
     + apply in_app_iff in He. destruct He as [He|He]; [apply H4; right; assumption|].
-      apply In_detect in He. apply H4. left. tauto.
+      apply L_detect_incl in He. apply H4. left. exact He.
   - rewrite move_all_next. assumption.
 Qed.
 
 Definition det_of (outs : list bout) : list entry := flat_map o_det outs.
 Definition disp_of (outs : list bout) : list entry := flat_map (fun o => map fst (o_disp o)) outs.
 
+Lemma step_unfold s b s1 d s2 oks :
+  dispatch MaximumActions (b_height b) (b_time b) 0 s (b_oracle b) (b_nest b) = (s1, d) ->
+  apply_txs (b_height b) (b_time b) s1 (b_txs b) = (s2, oks) ->
+  step s b = (move_all s2 (detect (b_height b) (b_time b) (b_events b) (reg s2)),
+              {| o_disp := d; o_txres := oks;
+                 o_det := detect (b_height b) (b_time b) (b_events b) (reg s2) |}).
+Proof. intros Hd Ht. unfold step. rewrite Hd, Ht. reflexivity. Qed.
+
 Lemma Inv_step s b s' o det disp :
   Inv s det disp -> step s b = (s', o) -> Inv s' (det ++ o_det o) (disp ++ map fst (o_disp o)).
 Proof.
-  intros HI. unfold step.
-  destruct (dispatch MaximumActions 0 s (b_oracle b)) as [s1 d] eqn:Hd.
-  destruct (apply_txs (b_height b) (b_time b) s1 (b_txs b)) as [s2 r] eqn:Ht.
-  intros H; inversion H; subst; clear H. cbn [o_det o_disp].
-  apply Inv_detect. eapply Inv_txs; [|eassumption]. eapply Inv_dispatch; eassumption.
+  intros HI H. apply L_step_inv in H. destruct H as [s1 [s2 [HD [HT [HE Hs]]]]].
+  subst s'. rewrite HE. apply Inv_detect. eapply Inv_txs; [|exact HT]. eapply Inv_dispatch; eassumption.
 Qed.
 
 Lemma Inv_run bs : forall s s' outs det disp,
   Inv s det disp -> run s bs = (s', outs) -> Inv s' (det ++ det_of outs) (disp ++ disp_of outs).
 Proof.
-  induction bs as [|b bs IH]; intros s s' outs det disp HI; cbn [run].
-  - intros H; inversion H; subst. cbn. rewrite !app_nil_r. assumption.
-  - destruct (step s b) as [s1 o] eqn:Hs. destruct (run s1 bs) as [s2 os] eqn:Hr.
-    intros H; inversion H; subst; clear H.
+  induction bs as [|b bs IH]; intros s s' outs det disp HI H.
+  - cbn [run] in H. inversion H; subst. cbn [det_of disp_of flat_map]. rewrite !app_nil_r. assumption.
+  - apply L_run_cons in H. destruct H as [s1 [o [os [H1 [H2 Ho]]]]]. subst outs.
     unfold det_of, disp_of. cbn [flat_map]. rewrite !app_assoc.
-    eapply IH; [|eassumption]. eapply Inv_step; eassumption.
+    eapply IH; [|exact H2]. eapply Inv_step; eassumption.
 Qed.
 
-Lemma Inv_history b0 bs s outs :
-  run (init b0) bs = (s, outs) -> Inv s (det_of outs) (disp_of outs).
-Proof.
-  intros H. pose proof (Inv_run bs _ _ _ [] [] (Inv_init b0) H) as HI. exact HI.
-Qed.
+Lemma Inv_history s0 bs s outs :
+  wf_gen s0 -> run s0 bs = (s, outs) -> Inv s (queue s0 ++ det_of outs) (disp_of outs).
+Proof. intros Hw H. exact (Inv_run bs _ _ _ _ [] Hw H). Qed.
 
 Lemma run_state_eq bs : forall s, fst (run s bs) = run_state s bs.
 Proof.
@@ -475,26 +713,216 @@ Proof.
   rewrite IH. reflexivity.
 Qed.
 
+(* ------------------------------------------------------------------------------------------------ *)
+(** * TimeOk: every registered block-time trigger has a time in [0, MaxInt64] *)
+Lemma TimeOk_sub s s' : (forall e, In e (reg s') -> In e (reg s)) -> TimeOk s -> TimeOk s'.
+Proof. intros Hs HT e He. apply HT. apply Hs. exact He. Qed.
+
+Lemma eff0_reg_incl s a e : In e (reg (eff0 s a)) -> In e (reg s).
+Proof.
+  destruct a; cbn [eff0 reg set_bank set_rbank set_names set_grants set_reg]; auto.
+  apply L_remove_id_incl.
+Qed.
+
+Lemma TimeOk_eff0 s a : TimeOk s -> TimeOk (eff0 s a).
+Proof. apply TimeOk_sub. intros e. apply eff0_reg_incl. Qed.
+
+Lemma TimeOk_register h t s owner au root ev acts lim pp :
+  (0 <= t)%Z -> event_valid ev = true -> event_valid_ctx h t ev = true ->
+  TimeOk s -> TimeOk (register s owner au root ev acts lim pp).
+Proof.
+  intros Ht Hv Hc HT e He. cbn [register reg] in He. apply in_app_iff in He.
+  destruct He as [He|[He|[]]]; [apply HT; exact He|]. subst e. unfold time_ok. cbn [fst t_event].
+  destruct ev as [v|w|nm ln ats]; try exact I.
+  cbn [event_valid event_valid_ctx] in Hv, Hc. apply Z.leb_le in Hv. apply Z.ltb_lt in Hc. lia.
+Qed.
+
+Lemma TimeOk_exec_action h t root plim nl s a s' :
+  (0 <= t)%Z -> TimeOk s -> exec_action h t root plim nl s a = Some s' -> TimeOk s'.
+Proof.
+  intros Ht HT H. destruct a as [b|au ev acts].
+  - cbn [exec_action] in H. apply exec0_some in H. destruct H as [_ H]. subst s'. apply TimeOk_eff0. exact HT.
+  - apply nested_registered in H. destruct H as [owner [rest [lim [_ [_ [_ [Hv [Hc Hs]]]]]]]].
+    subst s'. apply validate_basic0_inv in Hv. destruct Hv as [_ [Hv _]].
+    eapply TimeOk_register; eassumption.
+Qed.
+
+Lemma TimeOk_exec_all h t root plim nl : (0 <= t)%Z ->
+  forall acts s s', TimeOk s -> exec_all h t root plim nl s acts = Some s' -> TimeOk s'.
+Proof.
+  intros Ht. induction acts as [|a r IH]; intros s s' HT H.
+  - cbn [exec_all] in H. inversion H; subst. exact HT.
+  - apply L_exec_all_cons in H. destruct H as [s1 [H1 H2]].
+    eapply IH; [|exact H2]. eapply TimeOk_exec_action; eassumption.
+Qed.
+
+Lemma TimeOk_run_actions h t s e oracle nest s' ok :
+  (0 <= t)%Z -> TimeOk s -> run_actions h t s e oracle nest = (s', ok) -> TimeOk s'.
+Proof.
+  intros Ht HT H. apply run_actions_inv in H. destruct H as [[_ Hs]|[_ Hx]].
+  - subst. exact HT.
+  - eapply TimeOk_exec_all; eassumption.
+Qed.
+
+Lemma TimeOk_dispatch h t oracle nest : (0 <= t)%Z ->
+  forall fuel gas s s' d, TimeOk s -> dispatch fuel h t gas s oracle nest = (s', d) -> TimeOk s'.
+Proof.
+  intros Ht. induction fuel as [|f IH]; intros gas s s' d HT H.
+  - cbn [dispatch] in H. inversion H; subst. exact HT.
+  - apply L_dispatch_S in H.
+    destruct H as [[_ [Hs _]]|[[e [rest [_ [_ [Hs _]]]]]|[e [rest [s1 [ok [l [_ [_ [ER [ED _]]]]]]]]]]].
+    + subst; exact HT.
+    + subst; exact HT.
+    + eapply IH; [|exact ED]. eapply TimeOk_run_actions; [exact Ht| |exact ER]. exact HT.
+Qed.
+
+Lemma TimeOk_tx h t s x s' ok : (0 <= t)%Z -> TimeOk s -> apply_tx h t s x = (s', ok) -> TimeOk s'.
+Proof.
+  intros Ht HT Hx. destruct ok.
+  2:{ apply apply_tx_rejected in Hx. subst. exact HT. }
+  destruct (apply_tx_accepted _ _ _ _ _ Hx) as [[sg [au [ev [acts [g [u Hc]]]]]]|[b [_ [Hs _]]]].
+  - subst x. apply create_accepted in Hx.
+    destruct Hx as [_ [_ [_ [Hc [Hv [owner [rest [lim [_ [_ [_ Hs']]]]]]]]]]].
+    subst s'. eapply TimeOk_register; eassumption.
+  - subst s'. apply TimeOk_eff0. exact HT.
+Qed.
+
+Lemma TimeOk_txs h t : (0 <= t)%Z ->
+  forall l s s' oks, TimeOk s -> apply_txs h t s l = (s', oks) -> TimeOk s'.
+Proof.
+  intros Ht. induction l as [|x l IH]; intros s s' oks HT H.
+  - cbn [apply_txs] in H. inversion H; subst; assumption.
+  - apply L_apply_txs_cons in H. destruct H as [s1 [ok [oks' [H1 [H2 _]]]]].
+    eapply IH; [|exact H2]. eapply TimeOk_tx; eassumption.
+Qed.
+
+(** the state in which a block's detection runs *)
+Lemma TimeOk_block h t oracle nest fuel gas s s1 d txs s2 oks :
+  (0 <= t)%Z -> TimeOk s ->
+  dispatch fuel h t gas s oracle nest = (s1, d) -> apply_txs h t s1 txs = (s2, oks) -> TimeOk s2.
+Proof.
+  intros Ht HT HD HX. eapply TimeOk_txs; [exact Ht| |exact HX]. eapply TimeOk_dispatch; eassumption.
+Qed.
+
+Lemma TimeOk_move_all s d : TimeOk s -> TimeOk (move_all s d).
+Proof. apply TimeOk_sub. intros e. apply move_all_reg_In. Qed.
+
+Lemma TimeOk_step s b s' o : (0 <= b_time b)%Z -> TimeOk s -> step s b = (s', o) -> TimeOk s'.
+Proof.
+  intros Ht HT H. apply L_step_inv in H. destruct H as [s1 [s2 [HD [HX [_ Hs]]]]].
+  subst s'. apply TimeOk_move_all. eapply TimeOk_block; eassumption.
+Qed.
+
+Theorem TimeOk_run : forall bs s s' outs,
+  TimeOk s -> (forall b, In b bs -> (0 <= b_time b)%Z) -> run s bs = (s', outs) -> TimeOk s'.
+Proof.
+  induction bs as [|b bs IH]; intros s s' outs HT Hb H.
+  - cbn [run] in H. inversion H; subst. exact HT.
+  - apply L_run_cons in H. destruct H as [s1 [o [os [H1 [H2 _]]]]].
+    eapply IH; [| |exact H2].
+    + eapply TimeOk_step; [|exact HT|exact H1]. apply Hb. left. reflexivity.
+    + intros b' Hb'. apply Hb. right. exact Hb'.
+Qed.
+
+(* ------------------------------------------------------------------------------------------------ *)
+(** * E. Ids are never reused: an id below the counter that is not in the registry stays out of it *)
+Definition GoneR (s : state) (i : N) : Prop := i < next_id s /\ cnt (reg s) i = 0%nat.
+
+Lemma GoneR_eff0 s a i : GoneR s i -> GoneR (eff0 s a) i.
+Proof.
+  intros [H1 H2]. split; [destruct a; exact H1|].
+  eapply cnt_incl_zero; [|exact H2]. intros e. apply eff0_reg_incl.
+Qed.
+
+Lemma GoneR_register s owner au root ev acts lim pp i :
+  GoneR s i -> GoneR (register s owner au root ev acts lim pp) i.
+Proof.
+  intros [H1 H2]. split; cbn [register reg next_id]; [lia|].
+  rewrite cnt_app, cnt_cons, cnt_nil, H2. unfold eid. cbn [fst t_id].
+  destruct (next_id s =? i) eqn:Hn; [|reflexivity]. apply N.eqb_eq in Hn. lia.
+Qed.
+
+Lemma GoneR_exec_action h t root plim nl s a s' i :
+  GoneR s i -> exec_action h t root plim nl s a = Some s' -> GoneR s' i.
+Proof.
+  intros HG H. apply exec_action_spec in H. subst s'. destruct a as [b|au ev acts]; cbn [eff_action].
+  - apply GoneR_eff0. exact HG.
+  - destruct nl as [lim|]; [|exact HG]. destruct au as [|owner au']; [exact HG|]. apply GoneR_register. exact HG.
+Qed.
+
+Lemma GoneR_exec_all h t root plim nl i : forall acts s s',
+  GoneR s i -> exec_all h t root plim nl s acts = Some s' -> GoneR s' i.
+Proof.
+  induction acts as [|a r IH]; intros s s' HG H.
+  - cbn [exec_all] in H. inversion H; subst. exact HG.
+  - apply L_exec_all_cons in H. destruct H as [s1 [H1 H2]].
+    eapply IH; [|exact H2]. eapply GoneR_exec_action; eassumption.
+Qed.
+
+Lemma GoneR_run_actions h t s e oracle nest s' ok i :
+  GoneR s i -> run_actions h t s e oracle nest = (s', ok) -> GoneR s' i.
+Proof.
+  intros HG H. apply run_actions_inv in H. destruct H as [[_ Hs]|[_ Hx]].
+  - subst. exact HG.
+  - eapply GoneR_exec_all; eassumption.
+Qed.
+
+Lemma GoneR_dispatch h t oracle nest i : forall fuel gas s s' d,
+  GoneR s i -> dispatch fuel h t gas s oracle nest = (s', d) -> GoneR s' i.
+Proof.
+  induction fuel as [|f IH]; intros gas s s' d HG H.
+  - cbn [dispatch] in H. inversion H; subst. exact HG.
+  - apply L_dispatch_S in H.
+    destruct H as [[_ [Hs _]]|[[e [rest [_ [_ [Hs _]]]]]|[e [rest [s1 [ok [l [_ [_ [ER [ED _]]]]]]]]]]].
+    + subst; exact HG.
+    + subst; exact HG.
+    + eapply IH; [|exact ED]. eapply GoneR_run_actions; [|exact ER]. exact HG.
+Qed.
+
+Lemma GoneR_tx h t s x s' ok i : GoneR s i -> apply_tx h t s x = (s', ok) -> GoneR s' i.
+Proof.
+  intros HG Hx. destruct ok.
+  2:{ apply apply_tx_rejected in Hx. subst. exact HG. }
+  destruct (apply_tx_accepted _ _ _ _ _ Hx) as [[sg [au [ev [acts [g [u Hc]]]]]]|[b [_ [Hs _]]]].
+  - subst x. apply create_accepted in Hx.
+    destruct Hx as [_ [_ [_ [_ [_ [owner [rest [lim [_ [_ [_ Hs']]]]]]]]]]].
+    subst s'. apply GoneR_register. exact HG.
+  - subst s'. apply GoneR_eff0. exact HG.
+Qed.
+
+Lemma GoneR_txs h t i : forall l s s' oks, GoneR s i -> apply_txs h t s l = (s', oks) -> GoneR s' i.
+Proof.
+  induction l as [|x l IH]; intros s s' oks HG H.
+  - cbn [apply_txs] in H. inversion H; subst; assumption.
+  - apply L_apply_txs_cons in H. destruct H as [s1 [ok [oks' [H1 [H2 _]]]]].
+    eapply IH; [|exact H2]. eapply GoneR_tx; eassumption.
+Qed.
+
+Lemma GoneR_move_all s d i : GoneR s i -> GoneR (move_all s d) i.
+Proof.
+  intros [H1 H2]. split; [rewrite move_all_next; exact H1|].
+  eapply cnt_incl_zero; [|exact H2]. intros e. apply move_all_reg_In.
+Qed.
+
+(* ------------------------------------------------------------------------------------------------ *)
 (** * Detection is sound, block by block *)
 Definition det_sound (b : block) (o : bout) : Prop :=
-  forall e, In e (o_det o) -> met (b_height b) (b_time b) (b_events b) (t_event (fst e)) = true.
+  forall e, In e (o_det o) -> D_met (b_height b) (b_time b) (b_events b) (t_event (fst e)) = true.
 
 Lemma step_det_sound s b s' o : step s b = (s', o) -> det_sound b o.
 Proof.
-  unfold step.
-  destruct (dispatch MaximumActions 0 s (b_oracle b)) as [s1 d].
-  destruct (apply_txs (b_height b) (b_time b) s1 (b_txs b)) as [s2 r].
-  intros H; inversion H; subst; clear H. intros e He. cbn [o_det] in He. apply In_detect in He. tauto.
+  intros H. apply L_step_inv in H. destruct H as [s1 [s2 [_ [_ [HE _]]]]].
+  intros e He. rewrite HE in He. apply detect_sound in He. tauto.
 Qed.
 
 Lemma run_det_sound bs : forall s s' outs,
   run s bs = (s', outs) ->
   length outs = length bs /\ forall b o, In (b, o) (combine bs outs) -> det_sound b o.
 Proof.
-  induction bs as [|b bs IH]; intros s s' outs; cbn [run].
-  - intros H; inversion H; subst. split; [reflexivity|]. intros ? ? [].
-  - destruct (step s b) as [s1 o] eqn:Hs. destruct (run s1 bs) as [s2 os] eqn:Hr.
-    intros H; inversion H; subst; clear H. apply IH in Hr. destruct Hr as [Hl Hc]. split; [cbn; congruence|].
+  induction bs as [|b bs IH]; intros s s' outs H.
+  - cbn [run] in H. inversion H; subst. split; [reflexivity|]. intros ? ? [].
+  - apply L_run_cons in H. destruct H as [s1 [o [os [Hs [Hr Ho]]]]]. subst outs.
+    apply IH in Hr. destruct Hr as [Hl Hc]. split; [cbn [length]; congruence|].
     intros b' o' [Hin|Hin].
     + inversion Hin; subst. eapply step_det_sound; eassumption.
     + apply Hc; assumption.
@@ -503,130 +931,334 @@ Qed.
 Lemma in_combine_ex {A B} (l1 : list A) : forall (l2 : list B) y,
   length l2 = length l1 -> In y l2 -> exists x, In (x, y) (combine l1 l2).
 Proof.
-  induction l1 as [|a l1 IH]; intros [|b l2] y Hl Hin; cbn in *; try discriminate; try contradiction.
+  induction l1 as [|a l1 IH]; intros [|b l2] y Hl Hin; cbn [length combine In] in *; try discriminate; try contradiction.
   destruct Hin as [Hin|Hin].
   - subst. exists a. left; reflexivity.
   - destruct (IH l2 y) as [x Hx]; [congruence|assumption|]. exists x. right; assumption.
 Qed.
 
-(** * The history theorems *)
-Lemma exactly_one_place b0 bs s outs :
-  run (init b0) bs = (s, outs) ->
+(* ------------------------------------------------------------------------------------------------ *)
+(** * C. The history theorems: any history from any well-formed genesis state *)
+Theorem exactly_one_place s0 bs s outs :
+  wf_gen s0 -> run s0 bs = (s, outs) ->
   forall i, (cnt (reg s) i + cnt (queue s) i <= 1)%nat /\
             ((0 < cnt (reg s) i + cnt (queue s) i)%nat -> 1 <= i < next_id s) /\
             ((0 < cnt (disp_of outs) i)%nat -> cnt (reg s) i = 0%nat /\ cnt (queue s) i = 0%nat).
 Proof.
-  intros H i. apply Inv_history in H. destruct H as [H1 H2 H3 _ _].
+  intros Hw H i. pose proof (Inv_history _ _ _ _ Hw H) as [H1 H2 H3 _ _].
   specialize (H1 i). specialize (H2 i). rewrite H3, cnt_app in H1, H2. repeat split; try lia.
   all: intros; try (apply H2; lia); lia.
 Qed.
 
-Lemma at_most_once b0 bs s outs :
-  run (init b0) bs = (s, outs) -> NoDup (map eid (disp_of outs)).
+Theorem at_most_once s0 bs s outs :
+  wf_gen s0 -> run s0 bs = (s, outs) -> NoDup (map eid (disp_of outs)).
 Proof.
-  intros H. apply Inv_history in H. destruct H as [H1 _ H3 _ _].
+  intros Hw H. pose proof (Inv_history _ _ _ _ Hw H) as [H1 _ H3 _ _].
   apply cnt_le1_NoDup. intros i. specialize (H1 i). rewrite H3, cnt_app in H1. lia.
 Qed.
 
-Lemma fifo b0 bs s outs :
-  run (init b0) bs = (s, outs) -> det_of outs = disp_of outs ++ queue s.
-Proof. intros H. apply Inv_history in H. destruct H. assumption. Qed.
+Theorem fifo s0 bs s outs :
+  wf_gen s0 -> run s0 bs = (s, outs) -> queue s0 ++ det_of outs = disp_of outs ++ queue s.
+Proof. intros Hw H. exact (I_fifo _ _ _ (Inv_history _ _ _ _ Hw H)). Qed.
 
-Lemma not_before_condition b0 bs b s outs s' o :
-  run (init b0) bs = (s, outs) -> step s b = (s', o) ->
-  forall e ok, In (e, ok) (o_disp o) ->
-  exists b' o', In (b', o') (combine bs outs) /\ In e (o_det o') /\
-                met (b_height b') (b_time b') (b_events b') (t_event (fst e)) = true.
+(** what the next block dispatches sits in the queue *)
+Lemma dispatched_in_queue s b s' o e ok :
+  step s b = (s', o) -> In (e, ok) (o_disp o) -> In e (queue s).
 Proof.
-  intros Hr Hs e ok Hin.
-  pose proof (fifo _ _ _ _ Hr) as Hf. pose proof (run_det_sound _ _ _ _ Hr) as [Hl Hc].
-  unfold step in Hs.
-  destruct (dispatch MaximumActions 0 s (b_oracle b)) as [s1 d] eqn:Hd.
-  destruct (apply_txs (b_height b) (b_time b) s1 (b_txs b)) as [s2 r].
-  inversion Hs; subst; clear Hs. cbn [o_disp] in Hin.
-  apply dispatch_spec in Hd. destruct Hd as [Q _].
-  assert (Hq : In e (queue s)). { rewrite Q. apply in_app_iff. left. apply in_map_iff. exists (e, ok). auto. }
-  assert (Hdet : In e (det_of outs)). { rewrite Hf. apply in_app_iff. right. assumption. }
+  intros Hs Hin. apply L_step_inv in Hs. destruct Hs as [s1 [s2 [HD _]]].
+  apply dispatch_spec in HD. destruct HD as [Q _]. rewrite Q. apply in_or_app. left.
+  apply in_map_iff. exists (e, ok). auto.
+Qed.
+
+Lemma dispatched_good s0 bs s outs b s' o e ok :
+  wf_gen s0 -> run s0 bs = (s, outs) -> step s b = (s', o) -> In (e, ok) (o_disp o) -> good e.
+Proof.
+  intros Hw Hr Hs Hin. pose proof (Inv_history _ _ _ _ Hw Hr) as [_ _ H3 H4 _].
+  apply H4. right. rewrite H3. apply in_or_app. right. eapply dispatched_in_queue; eassumption.
+Qed.
+
+Theorem not_before_condition s0 bs b s outs s' o :
+  wf_gen s0 -> run s0 bs = (s, outs) -> step s b = (s', o) ->
+  forall e ok, In (e, ok) (o_disp o) ->
+  In e (queue s0) \/
+  exists b' o', In (b', o') (combine bs outs) /\ In e (o_det o') /\
+                D_met (b_height b') (b_time b') (b_events b') (t_event (fst e)) = true.
+Proof.
+  intros Hw Hr Hs e ok Hin.
+  pose proof (fifo _ _ _ _ Hw Hr) as Hf. pose proof (run_det_sound _ _ _ _ Hr) as [Hl Hc].
+  assert (Hq : In e (queue s)) by (eapply dispatched_in_queue; eassumption).
+  assert (Hdet : In e (queue s0 ++ det_of outs)). { rewrite Hf. apply in_or_app. right. assumption. }
+  apply in_app_or in Hdet. destruct Hdet as [Hdet|Hdet]; [left; exact Hdet|right].
   unfold det_of in Hdet. apply in_flat_map in Hdet. destruct Hdet as [o' [Ho' He]].
   destruct (in_combine_ex bs outs o' Hl Ho') as [b' Hb'].
   exists b', o'. split; [assumption|]. split; [assumption|]. apply (Hc b' o' Hb'). assumption.
 Qed.
 
-Lemma atomic b0 bs s outs oracle s1 d :
-  run (init b0) bs = (s, outs) -> dispatch MaximumActions 0 s oracle = (s1, d) ->
-  bank s1 = effects (bank s) d.
-Proof. intros _ Hd. apply dispatch_spec in Hd. tauto. Qed.
-
-Lemma gas_caps b0 bs b s outs s' o :
-  run (init b0) bs = (s, outs) -> step s b = (s', o) ->
+Theorem gas_caps s0 bs b s outs s' o :
+  wf_gen s0 -> run s0 bs = (s, outs) -> step s b = (s', o) ->
   (length (o_disp o) <= MaximumActions)%nat /\
   sum_lim (map fst (o_disp o)) <= MaximumQueueGas /\
-  forall e ok, In (e, ok) (o_disp o) -> snd e <= MaximumTriggerGas /\ snd e <= t_prepaid (fst e).
+  forall e ok, In (e, ok) (o_disp o) ->
+    snd e <= MaximumTriggerGas /\ snd e + SetGasLimitCost <= t_prepaid (fst e).
 Proof.
-  intros Hr Hs. apply Inv_history in Hr. destruct Hr as [_ _ H3 H4 _].
-  unfold step in Hs.
-  destruct (dispatch MaximumActions 0 s (b_oracle b)) as [s1 d] eqn:Hd.
-  destruct (apply_txs (b_height b) (b_time b) s1 (b_txs b)) as [s2 r].
-  inversion Hs; subst; clear Hs. cbn [o_disp].
-  apply dispatch_spec in Hd. destruct Hd as [Q [_ [_ [Hlen [Hsum _]]]]].
-  split; [assumption|]. split.
-  { assert (0 <= MaximumQueueGas) by (unfold MaximumQueueGas; lia). specialize (Hsum H). lia. }
-  intros e ok Hin.
-  assert (Hg : good e).
-  { apply H4. right. rewrite H3. apply in_app_iff. right. rewrite Q. apply in_app_iff. left.
-    apply in_map_iff. exists (e, ok). auto. }
-  destruct Hg as [G1 [G2 _]]. auto.
+  intros Hw Hr Hs. split; [|split].
+  - apply L_step_inv in Hs. destruct Hs as [s1 [s2 [HD _]]]. apply dispatch_spec in HD. tauto.
+  - apply L_step_inv in Hs. destruct Hs as [s1 [s2 [HD _]]]. apply dispatch_spec in HD.
+    destruct HD as [_ [_ Hsum]]. assert (H0 : 0 <= MaximumQueueGas) by apply N.le_0_l.
+    specialize (Hsum H0). lia.
+  - intros e ok Hin. destruct (dispatched_good _ _ _ _ _ _ _ _ _ Hw Hr Hs Hin) as [G1 [G2 _]]. auto.
 Qed.
 
-Lemma action_signers b0 bs b s outs s' o :
-  run (init b0) bs = (s, outs) -> step s b = (s', o) ->
+Theorem action_signers s0 bs b s outs s' o :
+  wf_gen s0 -> run s0 bs = (s, outs) -> step s b = (s', o) ->
   forall e ok, In (e, ok) (o_disp o) ->
   In (t_owner (fst e)) (t_auths (fst e)) /\
-  forall a x, In a (t_actions (fst e)) -> In x (a_signers a) -> In x (t_auths (fst e)).
+  (forall a x, In a (t_actions (fst e)) -> In x (a_signers a) -> In x (t_auths (fst e))) /\
+  (forall x, In x (t_auths (fst e)) -> In x (t_root (fst e))).
 Proof.
-  intros Hr Hs e ok Hin. apply Inv_history in Hr. destruct Hr as [_ _ H3 H4 _].
-  unfold step in Hs.
-  destruct (dispatch MaximumActions 0 s (b_oracle b)) as [s1 d] eqn:Hd.
-  destruct (apply_txs (b_height b) (b_time b) s1 (b_txs b)) as [s2 r].
-  inversion Hs; subst; clear Hs. cbn [o_disp] in Hin.
-  apply dispatch_spec in Hd. destruct Hd as [Q _].
-  assert (Hg : good e).
-  { apply H4. right. rewrite H3. apply in_app_iff. right. rewrite Q. apply in_app_iff. left.
-    apply in_map_iff. exists (e, ok). auto. }
-  destruct Hg as [_ [_ [G3 G4]]]. auto.
+  intros Hw Hr Hs e ok Hin.
+  destruct (dispatched_good _ _ _ _ _ _ _ _ _ Hw Hr Hs Hin) as [_ [_ [G3 [G4 G5]]]]. auto.
+Qed.
+
+(** the invariant at any point inside the block after a history *)
+Lemma Inv_inside s0 bs s outs h t oracle nest s1 d txs s2 oks :
+  wf_gen s0 -> run s0 bs = (s, outs) ->
+  dispatch MaximumActions h t 0 s oracle nest = (s1, d) ->
+  apply_txs h t s1 txs = (s2, oks) ->
+  Inv s2 (queue s0 ++ det_of outs) (disp_of outs ++ map fst d).
+Proof.
+  intros Hw Hr Hd Ht. eapply Inv_txs; [|exact Ht]. eapply Inv_dispatch; [|exact Hd].
+  eapply Inv_history; eassumption.
 Qed.
 
 (** destroy, at any point inside any block of any history *)
-Lemma destroy_rules b0 bs s outs oracle s1 d h t txs s2 oks who id s3 ok :
-  run (init b0) bs = (s, outs) ->
-  dispatch MaximumActions 0 s oracle = (s1, d) ->
+Theorem destroy_rules s0 bs s outs h t oracle nest s1 d txs s2 oks who id s3 ok :
+  wf_gen s0 -> run s0 bs = (s, outs) ->
+  dispatch MaximumActions h t 0 s oracle nest = (s1, d) ->
   apply_txs h t s1 txs = (s2, oks) ->
   apply_tx h t s2 (TDestroy who id) = (s3, ok) ->
-  (ok = true -> (exists e, In e (reg s2) /\ eid e = id /\ t_owner (fst e) = who) /\
-                cnt (queue s2) id = 0%nat /\ cnt (reg s3) id = 0%nat /\ queue s3 = queue s2) /\
+  (ok = true -> id <> 0 /\ (exists e, In e (reg s2) /\ eid e = id /\ t_owner (fst e) = who) /\
+                cnt (queue s2) id = 0%nat /\ cnt (reg s3) id = 0%nat /\ queue s3 = queue s2 /\
+                s3 = set_reg s2 (remove_id id (reg s2))) /\
   ((0 < cnt (queue s2) id)%nat -> ok = false) /\
   (ok = false -> s3 = s2).
 Proof.
-  intros Hr Hd Ht Hx.
-  assert (HI : Inv s2 (det_of outs) (disp_of outs ++ map fst d)).
-  { eapply Inv_txs; [|eassumption]. eapply Inv_dispatch; [|eassumption]. eapply Inv_history; eassumption. }
-  destruct HI as [H1 _ H3 _ _].
-  cbn [apply_tx] in Hx.
-  assert (Hacc : ok = true -> (exists e, In e (reg s2) /\ eid e = id /\ t_owner (fst e) = who) /\
-                 cnt (reg s3) id = 0%nat /\ queue s3 = queue s2).
-  { intros ->. destruct (id =? 0); [inversion Hx|].
-    destruct (find_id id (reg s2)) as [e|] eqn:Hf; [|inversion Hx].
-    destruct (t_owner (fst e) =? who) eqn:Ho; cbn [negb] in Hx; inversion Hx; subst; clear Hx.
-    apply find_id_some in Hf. apply N.eqb_eq in Ho. split; [exists e; tauto|].
-    cbn [reg queue]. rewrite cnt_remove_id, N.eqb_refl. auto. }
+  intros Hw Hr Hd Ht Hx.
+  pose proof (Inv_inside _ _ _ _ _ _ _ _ _ _ _ _ _ Hw Hr Hd Ht) as [H1 _ H3 _ _].
+  assert (Hacc : ok = true -> id <> 0 /\ (exists e, In e (reg s2) /\ eid e = id /\ t_owner (fst e) = who) /\
+                 s3 = set_reg s2 (remove_id id (reg s2))).
+  { intros ->. cbn [apply_tx] in Hx. destruct (exec0 t s2 (ADestroy who id)) as [s'|] eqn:E; [|inversion Hx].
+    inversion Hx; subst s'. apply exec0_some in E. destruct E as [Hp Hs]. apply destroy_pre in Hp.
+    destruct Hp as [Hid He]. auto. }
   assert (Hq : ok = true -> cnt (queue s2) id = 0%nat).
-  { intros Hok. destruct (Hacc Hok) as [[e [He1 [He2 _]]] _].
+  { intros Hok. destruct (Hacc Hok) as [_ [[e [He1 [He2 _]]] _]].
     assert (0 < cnt (reg s2) id)%nat by (apply cnt_pos_In; exists e; auto).
     specialize (H1 id). rewrite H3, !cnt_app in H1. lia. }
-  split; [intros Hok; destruct (Hacc Hok) as [A [B C]]; auto|].
-  split.
+  split; [|split].
+  - intros Hok. destruct (Hacc Hok) as [A [B C]]. split; [exact A|]. split; [exact B|]. split; [auto|].
+    rewrite C. cbn [set_reg reg queue]. rewrite cnt_remove_id, N.eqb_refl. auto.
   - intros Hp. destruct ok; [|reflexivity]. specialize (Hq eq_refl). lia.
-  - intros ->. destruct (id =? 0); [inversion Hx; reflexivity|].
-    destruct (find_id id (reg s2)) as [e|]; [|inversion Hx; reflexivity].
-    destruct (negb (t_owner (fst e) =? who)); inversion Hx. reflexivity.
+  - intros ->. eapply apply_tx_rejected. exact Hx.
 Qed.
+
+(* ------------------------------------------------------------------------------------------------ *)
+(** * E. A trigger that is gone stays gone *)
+Definition Gone (s : state) (i : N) : Prop := GoneR s i /\ cnt (queue s) i = 0%nat.
+
+Lemma Gone_step s b s' o i :
+  Gone s i -> step s b = (s', o) ->
+  Gone s' i /\ cnt (map fst (o_disp o)) i = 0%nat /\ cnt (o_det o) i = 0%nat.
+Proof.
+  intros [HG HQ] H. apply L_step_inv in H. destruct H as [s1 [s2 [HD [HT [HE Hs]]]]].
+  pose proof (GoneR_dispatch _ _ _ _ _ _ _ _ _ _ HG HD) as HG1.
+  pose proof (GoneR_txs _ _ _ _ _ _ _ HG1 HT) as HG2.
+  apply dispatch_prefix in HD. destruct HD as [D1 [D2 _]].
+  apply apply_txs_queue in HT.
+  pose proof (cnt_firstn_skipn (length (o_disp o)) (queue s) i) as Hsplit.
+  assert (Hdet : cnt (o_det o) i = 0%nat).
+  { rewrite HE. eapply cnt_incl_zero; [|exact (proj2 HG2)]. intros e. apply L_detect_incl. }
+  split; [|split].
+  - subst s'. split; [apply GoneR_move_all; exact HG2|].
+    rewrite move_all_queue, cnt_app, HT, D2, Hdet. lia.
+  - rewrite D1. lia.
+  - exact Hdet.
+Qed.
+
+Lemma Gone_run i : forall bs s s' outs,
+  Gone s i -> run s bs = (s', outs) ->
+  Gone s' i /\ cnt (disp_of outs) i = 0%nat /\ cnt (det_of outs) i = 0%nat.
+Proof.
+  induction bs as [|b bs IH]; intros s s' outs HG H.
+  - cbn [run] in H. inversion H; subst. cbn [disp_of det_of flat_map]. rewrite !cnt_nil. auto.
+  - apply L_run_cons in H. destruct H as [s1 [o [os [H1 [H2 Ho]]]]]. subst outs.
+    destruct (Gone_step _ _ _ _ _ HG H1) as [HG1 [A B]].
+    destruct (IH _ _ _ HG1 H2) as [HG2 [C D]].
+    split; [exact HG2|]. unfold disp_of, det_of in *. cbn [flat_map]. rewrite !cnt_app. lia.
+Qed.
+
+(** ids are never reused: an id that was handed out and is neither registered nor queued (its trigger was
+    destroyed, or executed) never comes back, and is never detected or dispatched again *)
+Theorem gone_stays_gone s0 bs s outs :
+  wf_gen s0 -> run s0 bs = (s, outs) ->
+  forall i, i < next_id s -> cnt (reg s) i = 0%nat -> cnt (queue s) i = 0%nat ->
+  forall bs' s' outs', run s bs' = (s', outs') ->
+  cnt (reg s') i = 0%nat /\ cnt (queue s') i = 0%nat /\ cnt (disp_of outs') i = 0%nat /\
+  cnt (det_of outs') i = 0%nat.
+Proof.
+  intros _ _ i Hi Hr Hq bs' s' outs' H.
+  destruct (Gone_run i bs' s s' outs' (conj (conj Hi Hr) Hq) H) as [[[_ A] B] [C D]]. auto.
+Qed.
+
+Theorem destroyed_in_block_never_detected h t s1 pre who id post s2 oks det disp evs :
+  Inv s1 det disp ->
+  apply_txs h t s1 (pre ++ TDestroy who id :: post) = (s2, oks) ->
+  nth (length pre) oks false = true ->
+  cnt (reg s2) id = 0%nat /\ id < next_id s2 /\
+  forall x, In x (detect h t evs (reg s2)) -> eid x <> id.
+Proof.
+  intros HI H Hn. apply apply_txs_app in H. destruct H as [sa [o1 [o2 [A1 [A2 [A3 A4]]]]]].
+  apply L_apply_txs_cons in A2. destruct A2 as [sb [ok [oks' [B1 [B2 B3]]]]].
+  subst oks o2. rewrite app_nth2 in Hn by lia. rewrite A4, Nat.sub_diag in Hn. cbn [nth] in Hn. subst ok.
+  pose proof (Inv_txs _ _ _ _ _ _ _ _ HI A1) as HIa.
+  assert (HG : GoneR sb id).
+  { cbn [apply_tx] in B1. destruct (exec0 t sa (ADestroy who id)) as [s'|] eqn:E; [|inversion B1].
+    inversion B1; subst s'. apply exec0_some in E. destruct E as [Hp Hs]. apply destroy_pre in Hp.
+    destruct Hp as [_ [e [He1 [He2 _]]]].
+    assert (Hp : (0 < cnt (reg sa) id + cnt det id)%nat).
+    { assert (0 < cnt (reg sa) id)%nat by (apply cnt_pos_In; exists e; auto). lia. }
+    apply (I_bound _ _ _ HIa) in Hp. subst sb. split; cbn [eff0 set_reg next_id reg]; [lia|].
+    rewrite cnt_remove_id, N.eqb_refl. reflexivity. }
+  pose proof (GoneR_txs _ _ _ _ _ _ _ HG B2) as [G1 G2].
+  split; [exact G2|]. split; [exact G1|].
+  intros x Hx. apply L_detect_incl in Hx. eapply cnt_zero_not_In; eassumption.
+Qed.
+
+(* ------------------------------------------------------------------------------------------------ *)
+(** * F. Detection is exact in every block of a history *)
+Lemma detect_exact_pure h t evs r x :
+  NoDup (map eid r) ->
+  (forall y w, In y r -> t_event (fst y) = EvTime w -> (0 <= w < two64)%Z) ->
+  In x r ->
+  (In x (detect h t evs r) <->
+   match t_event (fst x) with
+   | EvHeight v => v <= h
+   | EvTime v => (v <= t)%Z
+   | EvTx name lname attrs => exists e, In e evs /\ em_ltype e = lname /\ tx_matches name attrs e = true
+   end).
+Proof.
+  intros Hnd Hb Hx. unfold detect. rewrite !in_app_iff.
+  assert (Htx : In x (detect_tx evs r []) -> exists n l a, t_event (fst x) = EvTx n l a).
+  { intros H. apply detect_tx_sound in H. destruct H as [_ [Hi _]]. unfold is_tx in Hi.
+    destruct (t_event (fst x)) as [| |n l a]; try discriminate. exists n, l, a. reflexivity. }
+  assert (Hh : In x (detect_height h r) -> exists v, t_event (fst x) = EvHeight v).
+  { intros H. apply D_height_kind in H. destruct H as [_ [v [Hv _]]]. exists v. exact Hv. }
+  assert (Ht : In x (detect_time t r) -> exists v, t_event (fst x) = EvTime v).
+  { intros H. apply D_time_kind in H. destruct H as [_ [v [Hv _]]]. exists v. exact Hv. }
+  destruct (t_event (fst x)) as [v|v|name lname attrs] eqn:Ev.
+  - pose proof (detect_height_exact h r x v Hx Ev) as HE. split.
+    + intros [H|[H|H]].
+      * destruct (Htx H) as [n [l [a Hn]]]. discriminate.
+      * apply HE. exact H.
+      * destruct (Ht H) as [w Hw]. discriminate.
+    + intros H. right. left. apply HE. exact H.
+  - pose proof (detect_time_complete_iff t r x v Hb Hx Ev) as HE. split.
+    + intros [H|[H|H]].
+      * destruct (Htx H) as [n [l [a Hn]]]. discriminate.
+      * destruct (Hh H) as [w Hw]. discriminate.
+      * apply HE. exact H.
+    + intros H. right. right. apply HE. exact H.
+  - pose proof (detect_tx_exact evs r x name lname attrs Hnd Hx Ev) as HE. split.
+    + intros [H|[H|H]].
+      * apply HE. exact H.
+      * destruct (Hh H) as [w Hw]. discriminate.
+      * destruct (Ht H) as [w Hw]. discriminate.
+    + intros H. left. apply HE. exact H.
+Qed.
+
+Lemma TimeOk_two64 s : TimeOk s ->
+  forall y w, In y (reg s) -> t_event (fst y) = EvTime w -> (0 <= w < two64)%Z.
+Proof.
+  intros HT y w Hy Hw. specialize (HT y Hy). unfold time_ok in HT. rewrite Hw in HT.
+  unfold max_int64 in HT. unfold two64. lia.
+Qed.
+
+Theorem detection_exact s0 bs s outs b s1 d s2 oks :
+  wf_gen s0 -> TimeOk s0 -> run s0 bs = (s, outs) ->
+  (forall b', In b' bs -> (0 <= b_time b')%Z) -> (0 <= b_time b)%Z ->
+  dispatch MaximumActions (b_height b) (b_time b) 0 s (b_oracle b) (b_nest b) = (s1, d) ->
+  apply_txs (b_height b) (b_time b) s1 (b_txs b) = (s2, oks) ->
+  (forall x, In x (reg s2) ->
+     (In x (detect (b_height b) (b_time b) (b_events b) (reg s2)) <->
+      match t_event (fst x) with
+      | EvHeight v => v <= b_height b
+      | EvTime v => (v <= b_time b)%Z
+      | EvTx name lname attrs =>
+          exists e, In e (b_events b) /\ em_ltype e = lname /\ tx_matches name attrs e = true
+      end)) /\
+  (forall x, In x (detect (b_height b) (b_time b) (b_events b) (reg s2)) -> In x (reg s2)) /\
+  NoDup (map eid (detect (b_height b) (b_time b) (b_events b) (reg s2))).
+Proof.
+  intros Hw HT0 Hr Hbs Hb Hd Ht.
+  pose proof (Inv_inside _ _ _ _ _ _ _ _ _ _ _ _ _ Hw Hr Hd Ht) as HI.
+  pose proof (Inv_NoDup_reg _ _ _ HI) as Hnd.
+  assert (HT2 : TimeOk s2).
+  { eapply TimeOk_block; [exact Hb| |exact Hd|exact Ht]. eapply TimeOk_run; eassumption. }
+  split; [|split].
+  - intros x Hx. apply detect_exact_pure; [exact Hnd|apply TimeOk_two64; exact HT2|exact Hx].
+  - intros x. apply L_detect_incl.
+  - apply detect_nodup. exact Hnd.
+Qed.
+
+(* ------------------------------------------------------------------------------------------------ *)
+(** * A computed instance: the hypotheses are satisfiable by a non-empty genesis, and a nested creation
+      goes through (fresh id 2, root and prepaid gas inherited from the running trigger) *)
+Definition X_tr : trigger :=
+  {| t_id := 1; t_owner := 7; t_event := EvHeight 5;
+     t_actions := [ABasic (ASend 7 8 3%Z); ACreate [7] (EvTime 900) [ASend 7 8 1%Z]];
+     t_auths := [7]; t_root := [7]; t_prepaid := 200000 |}.
+
+Definition X_s0 : state :=
+  init_gen cfg0 (fun a => if a =? 7 then 10%Z else 0%Z) (fun _ => 0%Z) [] [(X_tr, 100000)] 2.
+
+Definition X_b : block :=
+  {| b_height := 10; b_time := 100; b_oracle := []; b_nest := [(1, 50000)]; b_txs := []; b_events := [] |}.
+
+Example X_wf : wf_gen X_s0 /\ TimeOk X_s0.
+Proof.
+  split.
+  - apply wf_gen_init_gen. cbn [app]. split; [|split].
+    + cbn [map]. constructor; [intros []|constructor].
+    + lia.
+    + intros e [<-|[]]. split; [unfold eid; cbn [fst X_tr t_id]; lia|].
+      unfold good. cbn [fst snd X_tr t_prepaid t_owner t_auths t_actions t_root].
+      unfold MaximumTriggerGas, SetGasLimitCost. split; [lia|]. split; [lia|].
+      split; [left; reflexivity|]. split.
+      * intros a x [<-|[<-|[]]]; cbn [a_signers signers0]; auto.
+      * auto.
+  - intros e [].
+Qed.
+
+Example X_run :
+  let r := step X_s0 X_b in
+  map (fun p => (eid (fst p), snd p)) (o_disp (snd r)) = [(1, true)] /\
+  map (fun e => (eid e, snd e, t_root (fst e), t_prepaid (fst e))) (reg (fst r)) = [(2, 50000, [7], 100000)] /\
+  bank (fst r) 8 = 3%Z /\ next_id (fst r) = 3.
+Proof. vm_compute. repeat split; reflexivity. Qed.
+
+(* ------------------------------------------------------------------------------------------------ *)
+Print Assumptions exactly_one_place.
+Print Assumptions at_most_once.
+Print Assumptions fifo.
+Print Assumptions not_before_condition.
+Print Assumptions dispatch_effects.
+Print Assumptions dispatch_all_failed.
+Print Assumptions gas_caps.
+Print Assumptions action_signers.
+Print Assumptions create_accepted.
+Print Assumptions destroy_rules.
+Print Assumptions nested_registered.
+Print Assumptions nested_last.
+Print Assumptions gone_stays_gone.
+Print Assumptions destroyed_in_block_never_detected.
+Print Assumptions TimeOk_run.
+Print Assumptions detection_exact.
